@@ -1,3 +1,1564 @@
-//! C10 harnesses (see /verif/DESIGN.md section 5).
+//! C10 - PacketBuilder emits consistent, parseable packets of the announced size
+//! (DESIGN.md section 5, C10).
+//!
+//! Every family harness fixes ONE builder path (link x vlan x net x transport are concrete, so
+//! all offsets of the emitted layout are constants) and ONE output path (`write` into a
+//! capturing `io::Write` double over a fixed array / `write_to_slice` into exactly `size` bytes /
+//! `write_to_vec`), and leaves every value symbolic: addresses, ports, ttl, flags, ids, options,
+//! payload content and payload length 0..=PAY (odd and even). Checked per family:
+//!  * the write succeeds and `size(n)` == bytes written;
+//!  * an INDEPENDENT reference read of the emitted bytes at the fixed offsets of the family
+//!    layout (written from IEEE 802.3/802.1Q/802.1ad, LINKTYPE_LINUX_SLL, RFC 791/8200/768/9293/
+//!    792/4443/826; shares no code and no constant with etherparse) finds the supplied values,
+//!    ether types / protocol numbers that name the layer that really follows, IPv4 total length,
+//!    IPv6 payload length and UDP length equal to the real sizes, and checksums equal to the
+//!    RFC 1071 reference over pseudo header || header with zero checksum field || payload, all
+//!    read from the emitted bytes (receiver's view). The reference pins EVERY emitted byte as a
+//!    function of the harness inputs, so the three output-path instantiations of a family prove
+//!    byte-identical output (a direct comparison of two builder runs in one query costs > 5 min);
+//!  * the crate's strict decoders accept the bytes layer by layer and return the supplied values
+//!    and the payload (whole-packet `SlicedPacket::from_*` and `Ipv6Slice::from_slice` behind a
+//!    builder run exceeded 10 min / 20 GB in CBMC: they are decided on arbitrary bytes by C01/C03).
+//! Error paths: ICMPv6 in IPv4, too short slice, payload length limits of IPv4 / IPv6 / UDP
+//! (`limit_*`, payload length symbolic up to 65600 over a zero object that is never read).
+//!
+//! Cost note (measured): ONE builder run costs CBMC 50-150 s because the ~10 KB builder state
+//! (`NetHeaders` holds `Ipv6Extensions`) is moved by value through every step and CBMC explores
+//! every enum arm of `final_write_with_net`; hence one run per harness.
+//!
+//! Checksum kernels are replaced by the reduced 16-bit one's complement models that the C09
+//! kernel / add_slice lemmas justify (DESIGN 2.5); the models below are textual copies of
+//! `c09::m64_*` so that this module does not depend on another property's file.
+//!
+//! Harnesses in the table at the end that are NOT listed in reg/c10.py are candidates that were
+//! not run to completion within the build budget (see the report / PROP["outside"]).
 
-crate::harnesses! {}
+use crate::sym::{any, any_le, assume};
+use crate::witness;
+use etherparse::err::packet::{BuildSliceWriteError, BuildVecWriteError, BuildWriteError};
+use etherparse::err::{ValueTooBigError, ValueType};
+use etherparse::*;
+
+// ================================================================= checksum models (stubs)
+
+/// 16-bit end-around-carry add (RFC 1071 section 1)
+#[inline(always)]
+pub fn oadd(x: u16, y: u16) -> u16 {
+    let s = u32::from(x) + u32::from(y);
+    ((s & 0xffff) + (s >> 16)) as u16
+}
+
+#[inline(always)]
+fn red(a: u64) -> u16 {
+    assert!(a <= 0xffff, "C10 model: accumulator left the reduced domain");
+    a as u16
+}
+
+#[inline(always)]
+fn limb64(x: u64, i: u32) -> u16 {
+    (x >> (16 * i)) as u16
+}
+
+pub fn m_add2(start: u64, v: [u8; 2]) -> u64 {
+    oadd(red(start), u16::from_ne_bytes(v)) as u64
+}
+pub fn m_add4(start: u64, v: [u8; 4]) -> u64 {
+    let x = u64::from(u32::from_ne_bytes(v));
+    oadd(oadd(red(start), limb64(x, 0)), limb64(x, 1)) as u64
+}
+pub fn m_add8(start: u64, v: [u8; 8]) -> u64 {
+    let x = u64::from_ne_bytes(v);
+    oadd(oadd(oadd(oadd(red(start), limb64(x, 0)), limb64(x, 1)), limb64(x, 2)), limb64(x, 3)) as u64
+}
+/// native-endian 16-bit words, odd length padded with one zero byte, left fold from `start`
+pub fn ref_ne(start: u16, s: &[u8]) -> u16 {
+    let mut acc = start;
+    let mut i = 0usize;
+    while i + 1 < s.len() {
+        acc = oadd(acc, u16::from_ne_bytes([s[i], s[i + 1]]));
+        i += 2;
+    }
+    if i < s.len() {
+        acc = oadd(acc, u16::from_ne_bytes([s[i], 0]));
+    }
+    acc
+}
+/// bound of the add_slice model: the family harnesses only sum payloads (<= PAY bytes)
+pub const MODEL_SLICE_MAX: usize = 40;
+pub fn m_add_slice(start: u64, slice: &[u8]) -> u64 {
+    assert!(slice.len() <= MODEL_SLICE_MAX, "C10 model: add_slice used beyond the bound proved by C09 (quick tier)");
+    ref_ne(red(start), slice) as u64
+}
+/// limit harnesses: the payload is huge and its sum is not the subject -> any value (havoc)
+pub fn havoc_add_slice(_start: u64, _slice: &[u8]) -> u64 {
+    let v: u16 = any();
+    u64::from(v)
+}
+
+// ================================================================= reference checksum (RFC 1071)
+
+/// running reference sum over pieces of a message; every piece but the last has even length
+/// (RFC 1071: the sum may be split at any even offset), big-endian field = bytes of the
+/// native-endian complement (byte order independence, RFC 1071 section 2 (B))
+struct RSum(u16);
+impl RSum {
+    fn new() -> Self {
+        RSum(0)
+    }
+    fn b2(mut self, a: u8, b: u8) -> Self {
+        self.0 = oadd(self.0, u16::from_ne_bytes([a, b]));
+        self
+    }
+    /// 2 / 4 / 8 / 16 bytes of `b` from offset `o` (unrolled: the reference has no loop, so the
+    /// unwind bound of a harness is dictated by the crate's loops alone)
+    fn a2(self, b: &[u8], o: usize) -> Self {
+        self.b2(b[o], b[o + 1])
+    }
+    fn a4(self, b: &[u8], o: usize) -> Self {
+        self.a2(b, o).a2(b, o + 2)
+    }
+    fn a8(self, b: &[u8], o: usize) -> Self {
+        self.a4(b, o).a4(b, o + 4)
+    }
+    fn a16(self, b: &[u8], o: usize) -> Self {
+        self.a8(b, o).a8(b, o + 8)
+    }
+    /// the last `n <= 8` bytes of the message starting at the even offset `o`, an odd byte zero padded
+    fn tail(self, b: &[u8], o: usize, n: usize) -> Self {
+        assert!(n <= 8, "C10 reference: tail longer than 8 bytes");
+        let g = |i: usize| if i < n { b[o + i] } else { 0 };
+        let mut s = self;
+        if n > 0 { s = s.b2(g(0), g(1)); }
+        if n > 2 { s = s.b2(g(2), g(3)); }
+        if n > 4 { s = s.b2(g(4), g(5)); }
+        if n > 6 { s = s.b2(g(6), g(7)); }
+        s
+    }
+    fn u16(self, v: u16) -> Self {
+        let b = v.to_be_bytes();
+        self.b2(b[0], b[1])
+    }
+    fn u32(self, v: u32) -> Self {
+        let b = v.to_be_bytes();
+        self.b2(b[0], b[1]).b2(b[2], b[3])
+    }
+    /// value of the checksum field as a big-endian number
+    fn field(&self) -> u16 {
+        u16::from_be_bytes((!self.0).to_ne_bytes())
+    }
+}
+
+// ================================================================= serialiser models (stubs)
+//
+// `Ipv6Extensions::write_internal` is a `loop { match next_header { .. } }` whose arms call
+// `Ipv6RawExtHeader::to_bytes` (2 KB ArrayVec) and `IpAuthHeader::to_bytes` (fixed 1016-trip
+// loop). CBMC does not resolve the walk of the builder's moved-by-value state, so it explores
+// every arm in every unwinding and runs out of memory (measured: > 20 GB even without any
+// extension header). No C10 family carries a raw extension header or an authentication header
+// (their serialisers are decided by C08, the chain bookkeeping by C12), so the two functions
+// are replaced by models that FAIL if they are ever reached.
+
+pub fn m_raw_ext_to_bytes(_h: &Ipv6RawExtHeader) -> arrayvec::ArrayVec<u8, { Ipv6RawExtHeader::MAX_LEN }> {
+    panic!("C10 model: Ipv6RawExtHeader::to_bytes reached although no family carries a raw extension header");
+}
+// (`to_bytes` lives in `impl<'a> IpAuthHeader`: the stub needs the same number of generic parameters)
+pub fn m_auth_to_bytes<'a>(_h: &IpAuthHeader) -> arrayvec::ArrayVec<u8, { IpAuthHeader::MAX_LEN }>
+where
+    'a: 'a,
+{
+    panic!("C10 model: IpAuthHeader::to_bytes reached although no family carries an authentication header");
+}
+
+// ================================================================= test doubles / helpers
+
+/// payload bound of the family harnesses
+pub const PAY: usize = 6;
+
+/// capturing `io::Write` double: fixed array, no Vec, no loop; bytes that do not fit are only counted
+pub struct Cap<const N: usize> {
+    pub b: [u8; N],
+    pub n: usize,
+}
+impl<const N: usize> Cap<N> {
+    pub fn new() -> Self {
+        Cap { b: [0u8; N], n: 0 }
+    }
+}
+impl<const N: usize> std::io::Write for Cap<N> {
+    fn write(&mut self, buf: &[u8]) -> std::io::Result<usize> {
+        let l = buf.len();
+        if self.n <= N && l <= N - self.n {
+            self.b[self.n..self.n + l].copy_from_slice(buf);
+        }
+        self.n += l;
+        Ok(l)
+    }
+    fn write_all(&mut self, buf: &[u8]) -> std::io::Result<()> {
+        self.write(buf).map(|_| ())
+    }
+    fn flush(&mut self) -> std::io::Result<()> {
+        Ok(())
+    }
+}
+
+fn be16(b: &[u8], i: usize) -> u16 {
+    u16::from_be_bytes([b[i], b[i + 1]])
+}
+fn be32(b: &[u8], i: usize) -> u32 {
+    u32::from_be_bytes([b[i], b[i + 1], b[i + 2], b[i + 3]])
+}
+fn eq4(b: &[u8], o: usize, v: [u8; 4]) -> bool {
+    b[o] == v[0] && b[o + 1] == v[1] && b[o + 2] == v[2] && b[o + 3] == v[3]
+}
+fn eq6(b: &[u8], o: usize, v: [u8; 6]) -> bool {
+    b[o] == v[0] && b[o + 1] == v[1] && b[o + 2] == v[2] && b[o + 3] == v[3] && b[o + 4] == v[4] && b[o + 5] == v[5]
+}
+fn eq8(b: &[u8], o: usize, v: [u8; 8]) -> bool {
+    eq4(b, o, [v[0], v[1], v[2], v[3]]) && eq4(b, o + 4, [v[4], v[5], v[6], v[7]])
+}
+fn eq16(b: &[u8], o: usize, v: [u8; 16]) -> bool {
+    eq8(b, o, [v[0], v[1], v[2], v[3], v[4], v[5], v[6], v[7]])
+        && eq8(b, o + 8, [v[8], v[9], v[10], v[11], v[12], v[13], v[14], v[15]])
+}
+/// the `n` bytes of `a` from offset `o` are the first `n` payload bytes and nothing follows
+/// inside the emitted length (n <= PAY, unrolled: no loop)
+fn payload_at(a: &[u8], o: usize, p: &[u8; PAY], n: usize) -> bool {
+    let mut ok = true;
+    if n > 0 { ok &= a[o] == p[0]; }
+    if n > 1 { ok &= a[o + 1] == p[1]; }
+    if n > 2 { ok &= a[o + 2] == p[2]; }
+    if n > 3 { ok &= a[o + 3] == p[3]; }
+    if n > 4 { ok &= a[o + 4] == p[4]; }
+    if n > 5 { ok &= a[o + 5] == p[5]; }
+    ok
+}
+/// slice `s` is exactly the first `n` payload bytes
+fn is_payload(s: &[u8], p: &[u8; PAY], n: usize) -> bool {
+    s.len() == n && payload_at(s, 0, p, n)
+}
+
+fn payload() -> ([u8; PAY], usize) {
+    let d: [u8; PAY] = any();
+    let n = any_le(PAY);
+    witness!(n == 5, "odd_payload");
+    witness!(n == 0, "empty_payload");
+    witness!(n == PAY, "max_payload");
+    (d, n)
+}
+
+/// the three output paths of the builder (const parameter of every family body)
+pub const IO: u8 = 0;
+pub const SLICE: u8 = 1;
+pub const VEC: u8 = 2;
+
+/// bytes emitted by one builder run
+pub struct Emitted<const N: usize> {
+    /// `size(payload_len)`
+    pub size: usize,
+    /// emitted bytes, zero behind `n`
+    pub b: [u8; N],
+    /// number of bytes emitted
+    pub n: usize,
+}
+
+/// Runs `size(payload_len)` and ONE of the three write paths (`$P`) on identically configured
+/// builders (`$mk` builds a fresh one: a write consumes the builder), requires success and
+/// exactly `size` bytes, and yields the bytes. One path per harness because a single builder
+/// run costs CBMC about a minute (10 KB builder state moved by value through every step); the
+/// reference readers below pin EVERY emitted byte as a function of the harness inputs, so the
+/// three instantiations of a family prove byte-identical output of the three paths.
+/// `$extra`: arguments between sink and payload (the raw `write` takes the last next header).
+macro_rules! emit_ok {
+    ($P:expr, $N:expr, $mk:expr, [$($extra:expr),*], $pay:expr) => {{
+        let p: &[u8] = $pay;
+        let size = ($mk).size(p.len());
+        assert!(size <= $N, "C10 harness: capture buffer too small");
+        let mut out = [0u8; $N];
+        let n;
+        if $P == IO {
+            let mut w = Cap::<{ $N }>::new();
+            let r = ($mk).write(&mut w, $($extra,)* p);
+            assert!(r.is_ok(), "write must succeed");
+            n = w.n;
+            out = w.b;
+        } else if $P == SLICE {
+            // a buffer of exactly size(payload_len) bytes must do
+            let r = ($mk).write_to_slice(&mut out[..size], $($extra,)* p);
+            match r {
+                Ok(l) => n = l,
+                Err(_) => panic!("write_to_slice must succeed"),
+            }
+        } else {
+            let mut v: Vec<u8> = Vec::with_capacity($N);
+            let r = ($mk).write_to_vec(&mut v, $($extra,)* p);
+            assert!(r.is_ok(), "write_to_vec must succeed");
+            n = v.len();
+            assert!(n <= $N);
+            out[..n].copy_from_slice(&v);
+        }
+        assert!(n == size, "bytes written == size(payload_len)");
+        Emitted::<{ $N }> { size, b: out, n }
+    }};
+}
+
+// ================================================================= reference readers (fixed offsets)
+//
+// Written from the standards; values the builder step does not take from the caller are the
+// ones its documentation names (`..Default::default()`: DSCP/ECN/identification 0, DF set, no
+// fragmentation, no options; VLAN PCP 0 / DEI 0; IPv6 traffic class and flow label 0).
+
+/// IEEE 802.3 Ethernet II: destination(6) source(6) ether type(2)
+fn ref_eth2(b: &[u8], src: [u8; 6], dst: [u8; 6], ether_type: u16) {
+    assert!(eq6(b, 0, dst), "ethernet destination");
+    assert!(eq6(b, 6, src), "ethernet source");
+    assert!(be16(b, 12) == ether_type, "ethernet II ether type names the next layer");
+}
+
+/// IEEE 802.1Q tag at `o`: PCP(3) DEI(1) VID(12), ether type(2)
+fn ref_vlan(b: &[u8], o: usize, pcp: u8, dei: bool, vid: u16, ether_type: u16) {
+    assert!(be16(b, o) == (u16::from(pcp) << 13) | (u16::from(dei) << 12) | vid, "802.1Q TCI");
+    assert!(be16(b, o + 2) == ether_type, "802.1Q ether type names the next layer");
+}
+
+/// LINKTYPE_LINUX_SLL: packet type(2) ARPHRD(2) address length(2) address(8) protocol(2)
+fn ref_sll(b: &[u8], ptype: u16, alen: u16, addr: [u8; 8], ether_type: u16) {
+    assert!(be16(b, 0) == ptype, "SLL packet type");
+    assert!(be16(b, 2) == 1, "SLL ARPHRD_ETHER");
+    assert!(be16(b, 4) == alen, "SLL address length");
+    assert!(eq8(b, 6, addr), "SLL address");
+    assert!(be16(b, 14) == ether_type, "SLL protocol type names the next layer");
+}
+
+/// RFC 791 header checksum over `hl` header bytes at `o` with the checksum field taken as zero
+fn ref_ipv4_checksum(b: &[u8], o: usize, hl: usize) {
+    assert!(hl == 20 || hl == 24, "C10 reference: header length of the families");
+    let mut s = RSum::new().a8(b, o).a2(b, o + 8).a8(b, o + 12);
+    if hl > 20 {
+        s = s.a4(b, o + 20);
+    }
+    assert!(be16(b, o + 10) == s.field(), "IPv4 header checksum verifies");
+}
+
+/// RFC 791 header at `o` as the builder's `ipv4(source, destination, ttl)` step documents it
+fn ref_ipv4_plain(b: &[u8], o: usize, end: usize, src: [u8; 4], dst: [u8; 4], ttl: u8, proto: u8) {
+    assert!(b[o] == 0x45, "version 4, IHL 5");
+    assert!(b[o + 1] == 0, "DSCP / ECN default 0");
+    assert!(usize::from(be16(b, o + 2)) == end - o, "IPv4 total length == real size");
+    assert!(be16(b, o + 4) == 0, "identification default 0");
+    assert!(be16(b, o + 6) == 0x4000, "default: DF set, not a fragment");
+    assert!(b[o + 8] == ttl, "ttl");
+    assert!(b[o + 9] == proto, "IPv4 protocol names the next layer");
+    assert!(eq4(b, o + 12, src), "IPv4 source");
+    assert!(eq4(b, o + 16, dst), "IPv4 destination");
+    ref_ipv4_checksum(b, o, 20);
+}
+
+/// RFC 8200 header at `o` as the builder's `ipv6(source, destination, hop_limit)` step documents it
+fn ref_ipv6_plain(b: &[u8], o: usize, end: usize, src: [u8; 16], dst: [u8; 16], hop: u8, next: u8) {
+    assert!(be32(b, o) == 0x6000_0000, "version 6, traffic class 0, flow label 0");
+    assert!(usize::from(be16(b, o + 4)) == end - o - 40, "IPv6 payload length == real size");
+    assert!(b[o + 6] == next, "IPv6 next header names the next layer");
+    assert!(b[o + 7] == hop, "hop limit");
+    assert!(eq16(b, o + 8, src), "IPv6 source");
+    assert!(eq16(b, o + 24, dst), "IPv6 destination");
+}
+
+/// RFC 768 / RFC 9293 3.1 pseudo header, addresses read from the emitted IPv4 header at `ip`
+fn pseudo4(b: &[u8], ip: usize, proto: u8, len: usize) -> RSum {
+    RSum::new().a8(b, ip + 12).b2(0, proto).u16(len as u16)
+}
+/// RFC 8200 8.1 pseudo header, addresses read from the emitted IPv6 header at `ip`
+fn pseudo6(b: &[u8], ip: usize, next: u8, len: usize) -> RSum {
+    RSum::new().a16(b, ip + 8).a16(b, ip + 24).u32(len as u32).b2(0, 0).b2(0, next)
+}
+
+/// RFC 768 at `o`: ports, length == real size, checksum over pseudo header `ps` || header || data
+fn ref_udp(b: &[u8], ps: RSum, o: usize, end: usize, sp: u16, dp: u16) {
+    assert!(be16(b, o) == sp, "UDP source port");
+    assert!(be16(b, o + 2) == dp, "UDP destination port");
+    assert!(usize::from(be16(b, o + 4)) == end - o, "UDP length == real size");
+    let c = ps.a4(b, o).a2(b, o + 4).tail(b, o + 8, end - o - 8).field();
+    witness!(c == 0, "udp_checksum_computed_zero");
+    // RFC 768: a computed zero is transmitted as all ones
+    let want = if c == 0 { 0xffff } else { c };
+    assert!(be16(b, o + 6) == want, "UDP checksum verifies");
+}
+
+/// supplied TCP values
+pub struct TcpV {
+    sp: u16,
+    dp: u16,
+    seq: u32,
+    ack_no: u32,
+    win: u16,
+    urg_ptr: u16,
+    /// NS CWR ECE URG ACK PSH RST SYN FIN (bit 8 .. bit 0)
+    flags: u16,
+}
+
+/// RFC 9293 3.1 at `o` with `ol` option bytes (multiple of 4)
+fn ref_tcp(b: &[u8], ps: RSum, o: usize, ol: usize, end: usize, t: &TcpV) {
+    assert!(be16(b, o) == t.sp, "TCP source port");
+    assert!(be16(b, o + 2) == t.dp, "TCP destination port");
+    assert!(be32(b, o + 4) == t.seq, "TCP sequence number");
+    assert!(be32(b, o + 8) == t.ack_no, "TCP acknowledgment number");
+    // data offset(4) reserved(3) NS(1) | CWR ECE URG ACK PSH RST SYN FIN
+    assert!(be16(b, o + 12) == ((((20 + ol) / 4) as u16) << 12) | t.flags, "TCP data offset and flags");
+    assert!(be16(b, o + 14) == t.win, "TCP window");
+    assert!(be16(b, o + 18) == t.urg_ptr, "TCP urgent pointer");
+    let mut c = ps.a16(b, o).a2(b, o + 18);
+    assert!(ol == 0 || ol == 4 || ol == 8, "C10 reference: option lengths of the families");
+    if ol >= 4 {
+        c = c.a4(b, o + 20);
+    }
+    if ol >= 8 {
+        c = c.a4(b, o + 24);
+    }
+    let c = c.tail(b, o + 20 + ol, end - o - 20 - ol).field();
+    assert!(be16(b, o + 16) == c, "TCP checksum verifies");
+}
+
+/// RFC 792 / RFC 4443 common layout at `o`: type, code, checksum, 4 bytes rest of header
+fn ref_icmp(b: &[u8], ps: RSum, o: usize, end: usize, ty: u8, code: u8, rest: [u8; 4]) {
+    assert!(b[o] == ty, "ICMP type");
+    assert!(b[o + 1] == code, "ICMP code");
+    assert!(eq4(b, o + 4, rest), "ICMP bytes 5 to 8");
+    let c = ps.a2(b, o).a4(b, o + 4).tail(b, o + 8, end - o - 8).field();
+    assert!(be16(b, o + 2) == c, "ICMP checksum verifies");
+}
+
+fn vid() -> VlanId {
+    let v: u16 = any();
+    assume(v < 0x1000);
+    match VlanId::try_new(v) {
+        Ok(v) => v,
+        Err(_) => panic!("valid vlan id"),
+    }
+}
+
+// ================================================================= families (IPv6 / UDP)
+
+/// ethernet2 -> ipv6 -> udp
+pub fn eth_ipv6_udp<const P: u8>() {
+    const N: usize = 14 + 40 + 8 + PAY;
+    let (es, ed): ([u8; 6], [u8; 6]) = (any(), any());
+    let (src, dst, hop): ([u8; 16], [u8; 16], u8) = (any(), any(), any());
+    let (sp, dp): (u16, u16) = (any(), any());
+    let (pd, pn) = payload();
+    let e = emit_ok!(P, N, PacketBuilder::ethernet2(es, ed).ipv6(src, dst, hop).udp(sp, dp), [], &pd[..pn]);
+    assert!(e.size == 62 + pn);
+    let b = &e.b[..];
+    ref_eth2(b, es, ed, 0x86dd);
+    ref_ipv6_plain(b, 14, e.n, src, dst, hop, 17);
+    ref_udp(b, pseudo6(b, 14, 17, e.n - 54), 54, e.n, sp, dp);
+    assert!(payload_at(b, 62, &pd, pn), "payload");
+    // crate's strict decoders, layer by layer
+    let b = &e.b[..e.n];
+    let l = match Ethernet2Slice::from_slice_without_fcs(b) { Ok(v) => v, Err(_) => panic!("strict: ethernet") };
+    assert!(eq6(&l.source(), 0, es) && eq6(&l.destination(), 0, ed) && l.ether_type() == EtherType(0x86dd));
+    // (header level for IPv6: walking extension chains of arbitrary bytes is decided in C01/C03 and too
+    // expensive to repeat behind a builder run)
+    let h = match Ipv6HeaderSlice::from_slice(l.payload_slice()) { Ok(v) => v, Err(_) => panic!("strict: ipv6") };
+    assert!(eq16(&h.source(), 0, src) && eq16(&h.destination(), 0, dst) && h.hop_limit() == hop);
+    assert!(h.next_header() == IpNumber(17) && usize::from(h.payload_length()) == l.payload_slice().len() - 40);
+    let u = match UdpSlice::from_slice(&l.payload_slice()[40..]) { Ok(v) => v, Err(_) => panic!("strict: udp") };
+    assert!(u.source_port() == sp && u.destination_port() == dp);
+    assert!(is_payload(u.payload(), &pd, pn));
+}
+
+/// (start at) ipv4 -> udp
+pub fn ipv4_udp<const P: u8>() {
+    const N: usize = 20 + 8 + PAY;
+    let (src, dst, ttl): ([u8; 4], [u8; 4], u8) = (any(), any(), any());
+    let (sp, dp): (u16, u16) = (any(), any());
+    let (pd, pn) = payload();
+    let e = emit_ok!(P, N, PacketBuilder::ipv4(src, dst, ttl).udp(sp, dp), [], &pd[..pn]);
+    assert!(e.size == 28 + pn);
+    let b = &e.b[..];
+    ref_ipv4_plain(b, 0, e.n, src, dst, ttl, 17);
+    ref_udp(b, pseudo4(b, 0, 17, e.n - 20), 20, e.n, sp, dp);
+    assert!(payload_at(b, 28, &pd, pn), "payload");
+    let ip = match Ipv4Slice::from_slice(&e.b[..e.n]) { Ok(v) => v, Err(_) => panic!("strict: ipv4") };
+    let h = ip.header();
+    assert!(eq4(&h.source(), 0, src) && eq4(&h.destination(), 0, dst) && h.ttl() == ttl);
+    assert!(ip.payload().ip_number == IpNumber(17) && !ip.payload().fragmented);
+    let u = match UdpSlice::from_slice(ip.payload().payload) { Ok(v) => v, Err(_) => panic!("strict: udp") };
+    assert!(u.source_port() == sp && u.destination_port() == dp);
+    assert!(is_payload(u.payload(), &pd, pn));
+}
+
+// ================================================================= families (VLAN / IPv4 / TCP)
+
+/// option bytes handed to `options_raw` (6 -> zero padded to 8 by the crate, as documented)
+const TCP_OPT: usize = 6;
+
+/// ethernet2 -> single_vlan -> ipv4 -> tcp + flag setters (pattern A: ns syn psh ack urg ece) + options_raw
+pub fn vlan_ipv4_tcp<const P: u8>() {
+    const N: usize = 14 + 4 + 20 + 28 + PAY;
+    let (es, ed): ([u8; 6], [u8; 6]) = (any(), any());
+    let v = vid();
+    let (src, dst, ttl): ([u8; 4], [u8; 4], u8) = (any(), any(), any());
+    let (sp, dp, seq, win): (u16, u16, u32, u16) = (any(), any(), any(), any());
+    let (ack_no, urg_ptr): (u32, u16) = (any(), any());
+    let od: [u8; TCP_OPT] = any();
+    let (pd, pn) = payload();
+    let e = emit_ok!(
+        P,
+        N,
+        match PacketBuilder::ethernet2(es, ed)
+            .single_vlan(v)
+            .ipv4(src, dst, ttl)
+            .tcp(sp, dp, seq, win)
+            .ns()
+            .syn()
+            .psh()
+            .ack(ack_no)
+            .urg(urg_ptr)
+            .ece()
+            .options_raw(&od)
+        {
+            Ok(b) => b,
+            Err(_) => panic!("6 option bytes fit"),
+        },
+        [],
+        &pd[..pn]
+    );
+    assert!(e.size == 66 + pn);
+    let b = &e.b[..];
+    ref_eth2(b, es, ed, 0x8100);
+    ref_vlan(b, 14, 0, false, v.value(), 0x0800);
+    ref_ipv4_plain(b, 18, e.n, src, dst, ttl, 6);
+    // NS 0x100, ECE 0x40, URG 0x20, ACK 0x10, PSH 0x08, SYN 0x02
+    let t = TcpV { sp, dp, seq, ack_no, win, urg_ptr, flags: 0x100 | 0x40 | 0x20 | 0x10 | 0x08 | 0x02 };
+    ref_tcp(b, pseudo4(b, 18, 6, e.n - 38), 38, 8, e.n, &t);
+    assert!(b[58] == od[0] && b[59] == od[1] && b[60] == od[2] && b[61] == od[3] && b[62] == od[4] && b[63] == od[5], "TCP options");
+    assert!(b[64] == 0 && b[65] == 0, "TCP options zero padded to a multiple of 4");
+    assert!(payload_at(b, 66, &pd, pn), "payload");
+    // crate's strict decoders, layer by layer
+    let b = &e.b[..e.n];
+    let l = match Ethernet2Slice::from_slice_without_fcs(b) { Ok(v) => v, Err(_) => panic!("strict: ethernet") };
+    assert!(eq6(&l.source(), 0, es) && eq6(&l.destination(), 0, ed) && l.ether_type() == EtherType(0x8100));
+    let vl = match SingleVlanSlice::from_slice(l.payload_slice()) { Ok(v) => v, Err(_) => panic!("strict: vlan") };
+    assert!(vl.vlan_identifier() == v && vl.ether_type() == EtherType(0x0800));
+    let ip = match Ipv4Slice::from_slice(vl.payload_slice()) { Ok(v) => v, Err(_) => panic!("strict: ipv4") };
+    let h = ip.header();
+    assert!(eq4(&h.source(), 0, src) && eq4(&h.destination(), 0, dst) && h.ttl() == ttl);
+    assert!(ip.payload().ip_number == IpNumber(6) && !ip.payload().fragmented);
+    let ts = match TcpSlice::from_slice(ip.payload().payload) { Ok(v) => v, Err(_) => panic!("strict: tcp") };
+    assert!(ts.source_port() == sp && ts.destination_port() == dp && ts.sequence_number() == seq);
+    assert!(ts.window_size() == win && ts.acknowledgment_number() == ack_no && ts.urgent_pointer() == urg_ptr);
+    assert!(ts.ns() && ts.syn() && ts.psh() && ts.ack() && ts.urg() && ts.ece());
+    assert!(!ts.fin() && !ts.rst() && !ts.cwr());
+    let o = ts.options();
+    assert!(o.len() == 8 && o[0] == od[0] && o[5] == od[5] && o[6] == 0 && o[7] == 0);
+    assert!(is_payload(ts.payload(), &pd, pn));
+}
+
+/// (start at) ipv4 -> tcp + flag setters (pattern B: fin rst cwr), no options
+pub fn ipv4_tcp_b<const P: u8>() {
+    const N: usize = 20 + 20 + PAY + 2;
+    let (src, dst, ttl): ([u8; 4], [u8; 4], u8) = (any(), any(), any());
+    let (sp, dp, seq, win): (u16, u16, u32, u16) = (any(), any(), any(), any());
+    let (pd, pn) = payload();
+    let e = emit_ok!(P, N, PacketBuilder::ipv4(src, dst, ttl).tcp(sp, dp, seq, win).fin().rst().cwr(), [], &pd[..pn]);
+    assert!(e.size == 40 + pn);
+    let b = &e.b[..];
+    ref_ipv4_plain(b, 0, e.n, src, dst, ttl, 6);
+    let t = TcpV { sp, dp, seq, ack_no: 0, win, urg_ptr: 0, flags: 0x80 | 0x04 | 0x01 };
+    ref_tcp(b, pseudo4(b, 0, 6, e.n - 20), 20, 0, e.n, &t);
+    assert!(payload_at(b, 40, &pd, pn), "payload");
+    let ip = match Ipv4Slice::from_slice(&e.b[..e.n]) { Ok(v) => v, Err(_) => panic!("strict: ipv4") };
+    let ts = match TcpSlice::from_slice(ip.payload().payload) { Ok(v) => v, Err(_) => panic!("strict: tcp") };
+    assert!(ts.fin() && ts.rst() && ts.cwr());
+    assert!(!ts.ns() && !ts.syn() && !ts.psh() && !ts.ack() && !ts.urg() && !ts.ece());
+    assert!(ts.options().is_empty());
+    assert!(is_payload(ts.payload(), &pd, pn));
+}
+
+/// (start at) ipv6 -> tcp_header(all fields and flags symbolic, 4 option bytes)
+pub fn ipv6_tcp_header<const P: u8>() {
+    const N: usize = 40 + 24 + PAY + 2;
+    let (src, dst, hop): ([u8; 16], [u8; 16], u8) = (any(), any(), any());
+    let fl: u16 = any();
+    assume(fl < 0x200);
+    let t = TcpV { sp: any(), dp: any(), seq: any(), ack_no: any(), win: any(), urg_ptr: any(), flags: fl };
+    let od: [u8; 4] = any();
+    let (pd, pn) = payload();
+    let mk = || {
+        let mut h = TcpHeader::new(t.sp, t.dp, t.seq, t.win);
+        h.acknowledgment_number = t.ack_no;
+        h.urgent_pointer = t.urg_ptr;
+        h.checksum = 0x1234; // must be replaced
+        h.fin = fl & 1 != 0;
+        h.syn = fl & 2 != 0;
+        h.rst = fl & 4 != 0;
+        h.psh = fl & 8 != 0;
+        h.ack = fl & 0x10 != 0;
+        h.urg = fl & 0x20 != 0;
+        h.ece = fl & 0x40 != 0;
+        h.cwr = fl & 0x80 != 0;
+        h.ns = fl & 0x100 != 0;
+        match h.set_options_raw(&od) {
+            Ok(()) => {}
+            Err(_) => panic!("4 option bytes fit"),
+        }
+        h
+    };
+    let e = emit_ok!(P, N, PacketBuilder::ipv6(src, dst, hop).tcp_header(mk()), [], &pd[..pn]);
+    assert!(e.size == 64 + pn);
+    let b = &e.b[..];
+    ref_ipv6_plain(b, 0, e.n, src, dst, hop, 6);
+    ref_tcp(b, pseudo6(b, 0, 6, e.n - 40), 40, 4, e.n, &t);
+    assert!(eq4(b, 60, od), "TCP options");
+    assert!(payload_at(b, 64, &pd, pn), "payload");
+    // strict decoders (header level for IPv6: the extension walk is decided in C01/C03)
+    let h = match Ipv6HeaderSlice::from_slice(&e.b[..e.n]) { Ok(v) => v, Err(_) => panic!("strict: ipv6") };
+    assert!(eq16(&h.source(), 0, src) && eq16(&h.destination(), 0, dst) && h.hop_limit() == hop && h.next_header() == IpNumber(6));
+    assert!(usize::from(h.payload_length()) == e.n - 40);
+    let ts = match TcpSlice::from_slice(&e.b[40..e.n]) { Ok(v) => v, Err(_) => panic!("strict: tcp") };
+    assert!(ts.source_port() == t.sp && ts.destination_port() == t.dp && ts.sequence_number() == t.seq);
+    assert!(ts.fin() == (fl & 1 != 0) && ts.ns() == (fl & 0x100 != 0) && ts.cwr() == (fl & 0x80 != 0));
+    assert!(is_payload(ts.payload(), &pd, pn));
+}
+
+// ================================================================= families (double VLAN / SLL / ICMP)
+
+/// ethernet2 -> double_vlan -> ipv4 -> icmpv4_echo_request
+pub fn qinq_ipv4_icmpv4<const P: u8>() {
+    const N: usize = 14 + 8 + 20 + 8 + PAY;
+    let (es, ed): ([u8; 6], [u8; 6]) = (any(), any());
+    let (vo, vi) = (vid(), vid());
+    let (src, dst, ttl): ([u8; 4], [u8; 4], u8) = (any(), any(), any());
+    let (id, seq): (u16, u16) = (any(), any());
+    let (pd, pn) = payload();
+    let e = emit_ok!(
+        P,
+        N,
+        PacketBuilder::ethernet2(es, ed).double_vlan(vo, vi).ipv4(src, dst, ttl).icmpv4_echo_request(id, seq),
+        [],
+        &pd[..pn]
+    );
+    assert!(e.size == 50 + pn);
+    let b = &e.b[..];
+    // IEEE 802.1ad: outer S-tag 0x88a8, inner C-tag 0x8100
+    ref_eth2(b, es, ed, 0x88a8);
+    ref_vlan(b, 14, 0, false, vo.value(), 0x8100);
+    ref_vlan(b, 18, 0, false, vi.value(), 0x0800);
+    ref_ipv4_plain(b, 22, e.n, src, dst, ttl, 1);
+    let idb = id.to_be_bytes();
+    let sqb = seq.to_be_bytes();
+    // RFC 792 echo: type 8 code 0, identifier, sequence number; no pseudo header
+    ref_icmp(b, RSum::new(), 42, e.n, 8, 0, [idb[0], idb[1], sqb[0], sqb[1]]);
+    assert!(payload_at(b, 50, &pd, pn), "payload");
+    // crate's strict decoders, layer by layer
+    let b = &e.b[..e.n];
+    let l = match Ethernet2Slice::from_slice_without_fcs(b) { Ok(v) => v, Err(_) => panic!("strict: ethernet") };
+    assert!(l.ether_type() == EtherType(0x88a8));
+    let v1 = match SingleVlanSlice::from_slice(l.payload_slice()) { Ok(v) => v, Err(_) => panic!("strict: outer vlan") };
+    assert!(v1.vlan_identifier() == vo && v1.ether_type() == EtherType(0x8100));
+    let v2 = match SingleVlanSlice::from_slice(v1.payload_slice()) { Ok(v) => v, Err(_) => panic!("strict: inner vlan") };
+    assert!(v2.vlan_identifier() == vi && v2.ether_type() == EtherType(0x0800));
+    let ip = match Ipv4Slice::from_slice(v2.payload_slice()) { Ok(v) => v, Err(_) => panic!("strict: ipv4") };
+    let h = ip.header();
+    assert!(eq4(&h.source(), 0, src) && eq4(&h.destination(), 0, dst) && h.ttl() == ttl);
+    assert!(ip.payload().ip_number == IpNumber(1) && !ip.payload().fragmented);
+    let ic = match Icmpv4Slice::from_slice(ip.payload().payload) { Ok(v) => v, Err(_) => panic!("strict: icmpv4") };
+    match ic.icmp_type() {
+        Icmpv4Type::EchoRequest(h) => assert!(h.id == id && h.seq == seq),
+        _ => panic!("strict: echo request expected"),
+    }
+    assert!(is_payload(ic.payload(), &pd, pn));
+}
+
+/// linux_sll -> ipv6 -> icmpv6_echo_reply
+pub fn sll_ipv6_icmpv6<const P: u8>() {
+    const N: usize = 16 + 40 + 8 + PAY + 2;
+    let pt: u16 = any();
+    assume(pt <= 7);
+    let ptype = match LinuxSllPacketType::try_from(pt) { Ok(v) => v, Err(_) => panic!("packet type 0..=7 is valid") };
+    let (alen, addr): (u16, [u8; 8]) = (any(), any());
+    let (src, dst, hop): ([u8; 16], [u8; 16], u8) = (any(), any(), any());
+    let (id, seq): (u16, u16) = (any(), any());
+    let (pd, pn) = payload();
+    let e = emit_ok!(
+        P,
+        N,
+        PacketBuilder::linux_sll(ptype, alen, addr).ipv6(src, dst, hop).icmpv6_echo_reply(id, seq),
+        [],
+        &pd[..pn]
+    );
+    assert!(e.size == 64 + pn);
+    let b = &e.b[..];
+    ref_sll(b, pt, alen, addr, 0x86dd);
+    ref_ipv6_plain(b, 16, e.n, src, dst, hop, 58);
+    let idb = id.to_be_bytes();
+    let sqb = seq.to_be_bytes();
+    // RFC 4443 4.2 echo reply: type 129 code 0; checksum with the IPv6 pseudo header
+    ref_icmp(b, pseudo6(b, 16, 58, e.n - 56), 56, e.n, 129, 0, [idb[0], idb[1], sqb[0], sqb[1]]);
+    assert!(payload_at(b, 64, &pd, pn), "payload");
+    // crate's strict decoders, layer by layer
+    let b = &e.b[..e.n];
+    let l = match LinuxSllSlice::from_slice(b) { Ok(v) => v, Err(_) => panic!("strict: sll") };
+    assert!(l.packet_type() == ptype && l.sender_address_valid_length() == alen && eq8(&l.sender_address_full(), 0, addr));
+    assert!(l.protocol_type() == LinuxSllProtocolType::EtherType(EtherType(0x86dd)));
+    let h = match Ipv6HeaderSlice::from_slice(l.payload_slice()) { Ok(v) => v, Err(_) => panic!("strict: ipv6") };
+    assert!(eq16(&h.source(), 0, src) && eq16(&h.destination(), 0, dst) && h.hop_limit() == hop);
+    assert!(h.next_header() == IpNumber(58) && usize::from(h.payload_length()) == l.payload_slice().len() - 40);
+    let ic = match Icmpv6Slice::from_slice(&l.payload_slice()[40..]) { Ok(v) => v, Err(_) => panic!("strict: icmpv6") };
+    match ic.icmp_type() {
+        Icmpv6Type::EchoReply(h) => assert!(h.id == id && h.seq == seq),
+        _ => panic!("strict: echo reply expected"),
+    }
+    assert!(is_payload(ic.payload(), &pd, pn));
+}
+
+/// (start at) ipv6 -> icmpv4_raw: ICMPv4 behind IPv6 is encodable (next header 1, no pseudo header)
+pub fn ipv6_icmpv4_raw<const P: u8>() {
+    const N: usize = 40 + 8 + PAY + 2;
+    let (src, dst, hop): ([u8; 16], [u8; 16], u8) = (any(), any(), any());
+    let (ty, code, rest): (u8, u8, [u8; 4]) = (any(), any(), any());
+    let (pd, pn) = payload();
+    let e = emit_ok!(P, N, PacketBuilder::ipv6(src, dst, hop).icmpv4_raw(ty, code, rest), [], &pd[..pn]);
+    assert!(e.size == 48 + pn);
+    let b = &e.b[..];
+    ref_ipv6_plain(b, 0, e.n, src, dst, hop, 1);
+    ref_icmp(b, RSum::new(), 40, e.n, ty, code, rest);
+    assert!(payload_at(b, 48, &pd, pn), "payload");
+}
+
+/// (start at) ipv6 -> icmpv6_raw
+pub fn ipv6_icmpv6_raw<const P: u8>() {
+    const N: usize = 40 + 8 + PAY + 2;
+    let (src, dst, hop): ([u8; 16], [u8; 16], u8) = (any(), any(), any());
+    let (ty, code, rest): (u8, u8, [u8; 4]) = (any(), any(), any());
+    let (pd, pn) = payload();
+    let e = emit_ok!(P, N, PacketBuilder::ipv6(src, dst, hop).icmpv6_raw(ty, code, rest), [], &pd[..pn]);
+    assert!(e.size == 48 + pn);
+    let b = &e.b[..];
+    ref_ipv6_plain(b, 0, e.n, src, dst, hop, 58);
+    ref_icmp(b, pseudo6(b, 0, 58, e.n - 40), 40, e.n, ty, code, rest);
+    assert!(payload_at(b, 48, &pd, pn), "payload");
+}
+
+// ================================================================= families (ip(IpHeaders) / raw write)
+
+/// (start at) ip(IpHeaders::Ipv4(every field symbolic, 4 option bytes)) -> write(last next header)
+pub fn ip_v4_raw<const P: u8>() {
+    const N: usize = 24 + PAY + 2;
+    let (dscp, ecn, fo): (u8, u8, u16) = (any(), any(), any());
+    assume(dscp < 64 && ecn < 4 && fo < 0x2000);
+    let (src, dst, ttl, ident): ([u8; 4], [u8; 4], u8, u16) = (any(), any(), any(), any());
+    let (df, mf): (bool, bool) = (any(), any());
+    let od: [u8; 4] = any();
+    let last: u8 = any();
+    let (junk_len, junk_proto, junk_sum): (u16, u8, u16) = (any(), any(), any());
+    let (pd, pn) = payload();
+    let mk = || {
+        let h = Ipv4Header {
+            dscp: match IpDscp::try_new(dscp) { Ok(v) => v, Err(_) => panic!("dscp") },
+            ecn: match IpEcn::try_new(ecn) { Ok(v) => v, Err(_) => panic!("ecn") },
+            // documented: length, protocol and checksum are overwritten
+            total_len: junk_len,
+            identification: ident,
+            dont_fragment: df,
+            more_fragments: mf,
+            fragment_offset: match IpFragOffset::try_new(fo) { Ok(v) => v, Err(_) => panic!("fo") },
+            time_to_live: ttl,
+            protocol: IpNumber(junk_proto),
+            header_checksum: junk_sum,
+            source: src,
+            destination: dst,
+            options: match Ipv4Options::try_from(&od[..]) { Ok(v) => v, Err(_) => panic!("options") },
+        };
+        PacketBuilder::ip(IpHeaders::Ipv4(h, Default::default()))
+    };
+    let e = emit_ok!(P, N, mk(), [IpNumber(last)], &pd[..pn]);
+    assert!(e.size == 24 + pn);
+    let b = &e.b[..];
+    assert!(b[0] == 0x46, "version 4, IHL 6");
+    assert!(b[1] == (dscp << 2) | ecn, "DSCP / ECN");
+    assert!(usize::from(be16(b, 2)) == e.n, "IPv4 total length == real size");
+    assert!(be16(b, 4) == ident, "identification");
+    assert!(be16(b, 6) == (u16::from(df) << 14) | (u16::from(mf) << 13) | fo, "flags / fragment offset");
+    assert!(b[8] == ttl && b[9] == last, "ttl, protocol == supplied last next header");
+    assert!(eq4(b, 12, src) && eq4(b, 16, dst) && eq4(b, 20, od), "addresses, options");
+    ref_ipv4_checksum(b, 0, 24);
+    assert!(payload_at(b, 24, &pd, pn), "payload");
+    // strict decoders
+    let h = match Ipv4HeaderSlice::from_slice(&e.b[..e.n]) { Ok(v) => v, Err(_) => panic!("strict: ipv4 header") };
+    assert!(eq4(&h.source(), 0, src) && eq4(&h.destination(), 0, dst) && h.ttl() == ttl && h.identification() == ident);
+    assert!(h.dont_fragment() == df && h.more_fragments() == mf && h.fragments_offset().value() == fo);
+    assert!(h.protocol() == IpNumber(last) && usize::from(h.total_len()) == e.n);
+    let o = h.options();
+    assert!(o.len() == 4 && o[0] == od[0] && o[1] == od[1] && o[2] == od[2] && o[3] == od[3]);
+    // 51 (AH) announces an IPv4 extension header inside the caller's payload: not the builder's business
+    if last != 51 {
+        let ip = match Ipv4Slice::from_slice(&e.b[..e.n]) { Ok(v) => v, Err(_) => panic!("strict: ipv4") };
+        assert!(ip.payload().ip_number == IpNumber(last));
+        assert!(ip.payload().fragmented == (mf || fo != 0));
+        assert!(is_payload(ip.payload().payload, &pd, pn));
+    }
+}
+
+/// (start at) ip(IpHeaders::Ipv6(every field symbolic, no extension header)) -> write(last next header)
+pub fn ip_v6_raw<const P: u8>() {
+    const N: usize = 40 + PAY + 2;
+    let (tc, flow): (u8, u32) = (any(), any());
+    assume(flow < 0x10_0000);
+    let (src, dst, hop): ([u8; 16], [u8; 16], u8) = (any(), any(), any());
+    let (junk_len, junk_next): (u16, u8) = (any(), any());
+    let last: u8 = any();
+    let (pd, pn) = payload();
+    let mk = || {
+        let h = Ipv6Header {
+            traffic_class: tc,
+            flow_label: match Ipv6FlowLabel::try_new(flow) { Ok(v) => v, Err(_) => panic!("flow") },
+            payload_length: junk_len,
+            next_header: IpNumber(junk_next),
+            hop_limit: hop,
+            source: src,
+            destination: dst,
+        };
+        PacketBuilder::ip(IpHeaders::Ipv6(h, Default::default()))
+    };
+    // last == 0 without a hop-by-hop header used to panic in Ipv6Extensions::write_internal (unwrap on None);
+    // fixed in /repo ("fix: Ipv6Extensions::write no longer panics ..."): 0 is a placeholder and is written as is
+    witness!(last == 0, "next_header_0_placeholder");
+    let e = emit_ok!(P, N, mk(), [IpNumber(last)], &pd[..pn]);
+    assert!(e.size == 24 + pn);
+    let b = &e.b[..];
+    assert!(b[0] == 0x46, "version 4, IHL 6");
+    assert!(b[1] == (dscp << 2) | ecn, "DSCP / ECN");
+    assert!(usize::from(be16(b, 2)) == e.n, "IPv4 total length == real size");
+    assert!(be16(b, 4) == ident, "identification");
+    assert!(be16(b, 6) == (u16::from(df) << 14) | (u16::from(mf) << 13) | fo, "flags / fragment offset");
+    assert!(b[8] == ttl && b[9] == last, "ttl, protocol == supplied last next header");
+    assert!(eq4(b, 12, src) && eq4(b, 16, dst) && eq4(b, 20, od), "addresses, options");
+    ref_ipv4_checksum(b, 0, 24);
+    assert!(payload_at(b, 24, &pd, pn), "payload");
+    // strict decoders
+    let h = match Ipv4HeaderSlice::from_slice(&e.b[..e.n]) { Ok(v) => v, Err(_) => panic!("strict: ipv4 header") };
+    assert!(eq4(&h.source(), 0, src) && eq4(&h.destination(), 0, dst) && h.ttl() == ttl && h.identification() == ident);
+    assert!(h.dont_fragment() == df && h.more_fragments() == mf && h.fragments_offset().value() == fo);
+    assert!(h.protocol() == IpNumber(last) && usize::from(h.total_len()) == e.n);
+    let o = h.options();
+    assert!(o.len() == 4 && o[0] == od[0] && o[1] == od[1] && o[2] == od[2] && o[3] == od[3]);
+    // 51 (AH) announces an IPv4 extension header inside the caller's payload: not the builder's business
+    if last != 51 {
+        let ip = match Ipv4Slice::from_slice(&e.b[..e.n]) { Ok(v) => v, Err(_) => panic!("strict: ipv4") };
+        assert!(ip.payload().ip_number == IpNumber(last));
+        assert!(ip.payload().fragmented == (mf || fo != 0));
+        assert!(is_payload(ip.payload().payload, &pd, pn));
+    }
+}
+
+/// (start at) ip(IpHeaders::Ipv6(every field symbolic, no extension header)) -> write(last next header)
+pub fn ip_v6_raw<const P: u8>() {
+    const N: usize = 40 + PAY + 2;
+    let (tc, flow): (u8, u32) = (any(), any());
+    assume(flow < 0x10_0000);
+    let (src, dst, hop): ([u8; 16], [u8; 16], u8) = (any(), any(), any());
+    let (junk_len, junk_next): (u16, u8) = (any(), any());
+    let last: u8 = any();
+    let (pd, pn) = payload();
+    let mk = || {
+        let h = Ipv6Header {
+            traffic_class: tc,
+            flow_label: match Ipv6FlowLabel::try_new(flow) { Ok(v) => v, Err(_) => panic!("flow") },
+            payload_length: junk_len,
+            next_header: IpNumber(junk_next),
+            hop_limit: hop,
+            source: src,
+            destination: dst,
+        };
+        PacketBuilder::ip(IpHeaders::Ipv6(h, Default::default()))
+    };
+    if last == 0 {
+        // GENUINE DEFECT (reproduced natively): with no hop-by-hop header in the extensions and last next
+        // header 0, `Ipv6Extensions::write_internal` does `self.hop_by_hop_options.as_ref().unwrap()` ->
+        // panic "called `Option::unwrap()` on a `None` value" in write / write_to_slice / write_to_vec
+        // (etherparse/src/net/ipv6_exts.rs:679), although its own comment further down allows 0 as a
+        // placeholder next header. Routed to a finding key (HARNESS_GUIDE rule 7); `size` is still checked.
+        assert!(mk().size(pn) == 40 + pn);
+        witness!(true, "KF:c10-ipv6-raw-next-header-0-unwrap");
+        return;
+    }
+    let e = emit_ok!(P, N, mk(), [IpNumber(last)], &pd[..pn]);
+    assert!(e.size == 40 + pn);
+    let b = &e.b[..];
+    assert!(be32(b, 0) == 0x6000_0000 | (u32::from(tc) << 20) | flow, "version, traffic class, flow label");
+    assert!(usize::from(be16(b, 4)) == e.n - 40, "IPv6 payload length == real size");
+    assert!(b[6] == last, "IPv6 next header == supplied last next header");
+    assert!(b[7] == hop && eq16(b, 8, src) && eq16(b, 24, dst));
+    assert!(payload_at(b, 40, &pd, pn), "payload");
+    let h = match Ipv6HeaderSlice::from_slice(&e.b[..e.n]) { Ok(v) => v, Err(_) => panic!("strict: ipv6 header") };
+    assert!(eq16(&h.source(), 0, src) && eq16(&h.destination(), 0, dst) && h.hop_limit() == hop && h.next_header() == IpNumber(last));
+    assert!(h.traffic_class() == tc && h.flow_label().value() == flow);
+}
+
+/// (start at) ip(IpHeaders::Ipv6(every field symbolic, fragment extension header)) -> udp
+pub fn ip_v6_frag_udp<const P: u8>() {
+    const N: usize = 40 + 8 + 8 + PAY + 2;
+    let (tc, flow): (u8, u32) = (any(), any());
+    assume(flow < 0x10_0000);
+    let (src, dst, hop): ([u8; 16], [u8; 16], u8) = (any(), any(), any());
+    let (junk_len, junk_next, junk_next2): (u16, u8, u8) = (any(), any(), any());
+    let (fo, mf, fid): (u16, bool, u32) = (any(), any(), any());
+    assume(fo < 0x2000);
+    let (sp, dp): (u16, u16) = (any(), any());
+    let (pd, pn) = payload();
+    let mk = || {
+        let h = Ipv6Header {
+            traffic_class: tc,
+            flow_label: match Ipv6FlowLabel::try_new(flow) { Ok(v) => v, Err(_) => panic!("flow") },
+            payload_length: junk_len,
+            next_header: IpNumber(junk_next),
+            hop_limit: hop,
+            source: src,
+            destination: dst,
+        };
+        let x = Ipv6Extensions {
+            hop_by_hop_options: None,
+            destination_options: None,
+            routing: None,
+            fragment: Some(Ipv6FragmentHeader::new(
+                IpNumber(junk_next2),
+                match IpFragOffset::try_new(fo) { Ok(v) => v, Err(_) => panic!("fo") },
+                mf,
+                fid,
+            )),
+            auth: None,
+        };
+        PacketBuilder::ip(IpHeaders::Ipv6(h, x)).udp(sp, dp)
+    };
+    let e = emit_ok!(P, N, mk(), [], &pd[..pn]);
+    assert!(e.size == 56 + pn);
+    let b = &e.b[..];
+    assert!(be32(b, 0) == 0x6000_0000 | (u32::from(tc) << 20) | flow, "version, traffic class, flow label");
+    assert!(usize::from(be16(b, 4)) == e.n - 40, "IPv6 payload length == real size (extension header included)");
+    assert!(b[6] == 44, "IPv6 next header names the fragment header");
+    assert!(b[7] == hop && eq16(b, 8, src) && eq16(b, 24, dst));
+    // RFC 8200 4.5: next header, reserved, offset(13) res(2) M(1), identification
+    assert!(b[40] == 17, "fragment header's next header names UDP");
+    assert!(b[41] == 0 && be16(b, 42) == (fo << 3) | u16::from(mf) && be32(b, 44) == fid);
+    ref_udp(b, pseudo6(b, 0, 17, e.n - 48), 48, e.n, sp, dp);
+    assert!(payload_at(b, 56, &pd, pn), "payload");
+}
+
+// ================================================================= ARP
+
+/// ethernet2 [-> single_vlan] / linux_sll -> arp (Ethernet/IPv4 sized addresses, all content symbolic)
+pub fn arp<const P: u8, const LINK: u8>() {
+    const N: usize = 18 + 28 + 2;
+    let (es, ed): ([u8; 6], [u8; 6]) = (any(), any());
+    let v = vid();
+    let (alen, addr): (u16, [u8; 8]) = (any(), any());
+    let (hw, pr, op): (u16, u16, u16) = (any(), any(), any());
+    let (sha, spa, tha, tpa): ([u8; 6], [u8; 4], [u8; 6], [u8; 4]) = (any(), any(), any(), any());
+    let pk = || match ArpPacket::new(ArpHardwareId(hw), EtherType(pr), ArpOperation(op), &sha, &spa, &tha, &tpa) {
+        Ok(p) => p,
+        Err(_) => panic!("equal address sizes are accepted"),
+    };
+    // the ARP step has no payload: `size()` / `write(sink)` take none
+    macro_rules! arp_emit {
+        ($mk:expr) => {{
+            let size = ($mk).size();
+            let mut out = [0u8; N];
+            let n;
+            if P == IO {
+                let mut w = Cap::<N>::new();
+                assert!(($mk).write(&mut w).is_ok(), "write must succeed");
+                n = w.n;
+                out = w.b;
+            } else if P == SLICE {
+                match ($mk).write_to_slice(&mut out[..size]) {
+                    Ok(l) => n = l,
+                    Err(_) => panic!("write_to_slice must succeed"),
+                }
+            } else {
+                let mut v: Vec<u8> = Vec::with_capacity(N);
+                assert!(($mk).write_to_vec(&mut v).is_ok(), "write_to_vec must succeed");
+                n = v.len();
+                assert!(n <= N);
+                out[..n].copy_from_slice(&v);
+            }
+            assert!(n == size, "bytes written == size()");
+            (out, n)
+        }};
+    }
+    let (out, n, o) = if LINK == 0 {
+        let (out, n) = arp_emit!(PacketBuilder::ethernet2(es, ed).arp(pk()));
+        ref_eth2(&out, es, ed, 0x0806);
+        (out, n, 14)
+    } else if LINK == 1 {
+        let (out, n) = arp_emit!(PacketBuilder::ethernet2(es, ed).single_vlan(v).arp(pk()));
+        ref_eth2(&out, es, ed, 0x8100);
+        ref_vlan(&out, 14, 0, false, v.value(), 0x0806);
+        (out, n, 18)
+    } else {
+        let (out, n) = arp_emit!(PacketBuilder::linux_sll(LinuxSllPacketType::HOST, alen, addr).arp(pk()));
+        ref_sll(&out, 0, alen, addr, 0x0806);
+        (out, n, 16)
+    };
+    assert!(n == o + 28);
+    let b = &out[..];
+    // RFC 826: hardware type, protocol type, hlen, plen, operation, sha, spa, tha, tpa
+    assert!(be16(b, o) == hw && be16(b, o + 2) == pr && b[o + 4] == 6 && b[o + 5] == 4 && be16(b, o + 6) == op);
+    assert!(eq6(b, o + 8, sha) && eq4(b, o + 14, spa) && eq6(b, o + 18, tha) && eq4(b, o + 24, tpa));
+    let a = match ArpPacketSlice::from_slice(&out[o..n]) { Ok(v) => v, Err(_) => panic!("strict: arp") };
+    assert!(a.hw_addr_type() == ArpHardwareId(hw) && a.proto_addr_type() == EtherType(pr) && a.operation() == ArpOperation(op));
+    assert!(a.hw_addr_size() == 6 && a.proto_addr_size() == 4);
+    assert!(eq6(a.sender_hw_addr(), 0, sha) && eq4(a.sender_protocol_addr(), 0, spa));
+    assert!(eq6(a.target_hw_addr(), 0, tha) && eq4(a.target_protocol_addr(), 0, tpa));
+}
+
+// ================================================================= error paths
+
+/// ICMPv6 behind IPv4 cannot be encoded (no pseudo header defined): every path reports
+/// `Icmpv6InIpv4`, no panic; `size` still answers
+pub fn err_icmpv6_in_ipv4<const P: u8>() {
+    const N: usize = 14 + 20 + 8 + PAY;
+    let (es, ed): ([u8; 6], [u8; 6]) = (any(), any());
+    let (src, dst, ttl): ([u8; 4], [u8; 4], u8) = (any(), any(), any());
+    let (ty, code, rest): (u8, u8, [u8; 4]) = (any(), any(), any());
+    let (pd, pn) = payload();
+    let p = &pd[..pn];
+    let mk = || PacketBuilder::ethernet2(es, ed).ipv4(src, dst, ttl).icmpv6_raw(ty, code, rest);
+    assert!(mk().size(pn) == 42 + pn);
+    if P == IO {
+        let mut w = Cap::<N>::new();
+        match mk().write(&mut w, p) {
+            Err(BuildWriteError::Icmpv6InIpv4) => {}
+            _ => panic!("write: Icmpv6InIpv4 expected"),
+        }
+    } else if P == SLICE {
+        let mut out = [0u8; N];
+        assert!(mk().write_to_slice(&mut out, p) == Err(BuildSliceWriteError::Icmpv6InIpv4));
+    } else {
+        let mut v: Vec<u8> = Vec::with_capacity(N);
+        assert!(mk().write_to_vec(&mut v, p) == Err(BuildVecWriteError::Icmpv6InIpv4));
+    }
+}
+
+/// a slice shorter than `size(payload_len)` is rejected with `Space(size)` (no partial panic),
+/// for every shorter length
+pub fn err_slice_space() {
+    const N: usize = 20 + 8 + PAY;
+    let (src, dst, ttl): ([u8; 4], [u8; 4], u8) = (any(), any(), any());
+    let (sp, dp): (u16, u16) = (any(), any());
+    let (pd, pn) = payload();
+    let size = PacketBuilder::ipv4(src, dst, ttl).udp(sp, dp).size(pn);
+    assert!(size == 28 + pn);
+    let have = any_le(N);
+    assume(have < size);
+    witness!(have + 1 == size, "one_byte_short");
+    witness!(have == 0, "empty_buffer");
+    let mut out = [0u8; N];
+    let r = PacketBuilder::ipv4(src, dst, ttl).udp(sp, dp).write_to_slice(&mut out[..have], &pd[..pn]);
+    assert!(r == Err(BuildSliceWriteError::Space(size)));
+}
+
+// ================================================================= payload length limits
+//
+// The payload is a slice of symbolic length 0..=LIM_OBJ into a static zero object and is never
+// read: `add_slice` is a havoc stub (checksums are not the subject here) and the sink only
+// counts what does not fit into its first bytes. Decided: the verdict flips exactly at the true
+// maximum of the limiting length field, the error names value / maximum / field, `size` keeps
+// answering, and at the maximum the emitted length fields are exact (not truncated).
+
+const LIM_OBJ: usize = 65_600;
+static ZEROS: [u8; LIM_OBJ] = [0u8; LIM_OBJ];
+
+fn big_payload() -> &'static [u8] {
+    let n = any_le(LIM_OBJ);
+    &ZEROS[..n]
+}
+
+fn too_big(e: &BuildWriteError, actual: usize, max: usize, vt: ValueType) -> bool {
+    match e {
+        BuildWriteError::PayloadLen(v) => v.actual == actual && v.max_allowed == max && v.value_type == vt,
+        _ => false,
+    }
+}
+
+/// (start at) ipv4 -> udp: limit 65535 - 20 - 8 (IPv4 total length is the limiting field)
+pub fn limit_ipv4_udp() {
+    const MAX: usize = 65_535 - 20 - 8;
+    let (src, dst, ttl): ([u8; 4], [u8; 4], u8) = (any(), any(), any());
+    let (sp, dp): (u16, u16) = (any(), any());
+    let p = big_payload();
+    let n = p.len();
+    let mk = || PacketBuilder::ipv4(src, dst, ttl).udp(sp, dp);
+    assert!(mk().size(n) == 28 + n);
+    let mut w = Cap::<32>::new();
+    let r = mk().write(&mut w, p);
+    witness!(n == MAX && r.is_ok(), "ok_at_the_maximum");
+    witness!(n == MAX + 1 && r.is_err(), "err_one_above");
+    witness!(n == LIM_OBJ, "far_above");
+    match r {
+        Ok(()) => {
+            assert!(n <= MAX, "accepted although the IPv4 total length cannot hold it");
+            assert!(w.n == 28 + n);
+            assert!(usize::from(be16(&w.b, 2)) == 28 + n, "IPv4 total length exact");
+            assert!(usize::from(be16(&w.b, 24)) == 8 + n, "UDP length exact");
+        }
+        Err(e) => {
+            assert!(n > MAX, "rejected although it fits");
+            // the IPv4 payload (UDP header + data) is what does not fit
+            assert!(too_big(&e, 8 + n, 65_535 - 20, ValueType::Ipv4PayloadLength));
+        }
+    }
+}
+
+/// (start at) ipv6 -> udp: limit 65535 - 8 (IPv6 payload length / UDP length)
+pub fn limit_ipv6_udp() {
+    const MAX: usize = 65_535 - 8;
+    let (src, dst, hop): ([u8; 16], [u8; 16], u8) = (any(), any(), any());
+    let (sp, dp): (u16, u16) = (any(), any());
+    let p = big_payload();
+    let n = p.len();
+    let mk = || PacketBuilder::ipv6(src, dst, hop).udp(sp, dp);
+    assert!(mk().size(n) == 48 + n);
+    let mut w = Cap::<48>::new();
+    let r = mk().write(&mut w, p);
+    witness!(n == MAX && r.is_ok(), "ok_at_the_maximum");
+    witness!(n == MAX + 1 && r.is_err(), "err_one_above");
+    match r {
+        Ok(()) => {
+            assert!(n <= MAX, "accepted although the IPv6 payload length cannot hold it");
+            assert!(w.n == 48 + n);
+            assert!(usize::from(be16(&w.b, 4)) == 8 + n, "IPv6 payload length exact");
+            assert!(usize::from(be16(&w.b, 44)) == 8 + n, "UDP length exact");
+        }
+        Err(e) => {
+            assert!(n > MAX, "rejected although it fits");
+            assert!(too_big(&e, 8 + n, 65_535, ValueType::Ipv6PayloadLength));
+        }
+    }
+}
+
+/// (start at) ipv6 -> tcp: limit 65535 - 20
+pub fn limit_ipv6_tcp() {
+    const MAX: usize = 65_535 - 20;
+    let (src, dst, hop): ([u8; 16], [u8; 16], u8) = (any(), any(), any());
+    let (sp, dp, seq, win): (u16, u16, u32, u16) = (any(), any(), any(), any());
+    let p = big_payload();
+    let n = p.len();
+    let mk = || PacketBuilder::ipv6(src, dst, hop).tcp(sp, dp, seq, win);
+    assert!(mk().size(n) == 60 + n);
+    let mut w = Cap::<64>::new();
+    let r = mk().write(&mut w, p);
+    witness!(n == MAX && r.is_ok(), "ok_at_the_maximum");
+    witness!(n == MAX + 1 && r.is_err(), "err_one_above");
+    match r {
+        Ok(()) => {
+            assert!(n <= MAX, "accepted although the IPv6 payload length cannot hold it");
+            assert!(w.n == 60 + n);
+            assert!(usize::from(be16(&w.b, 4)) == 20 + n, "IPv6 payload length exact");
+        }
+        Err(e) => {
+            assert!(n > MAX, "rejected although it fits");
+            assert!(too_big(&e, 20 + n, 65_535, ValueType::Ipv6PayloadLength));
+        }
+    }
+}
+
+/// (start at) ipv4 -> icmpv4_echo_request: limit 65535 - 20 - 8
+pub fn limit_ipv4_icmpv4() {
+    const MAX: usize = 65_535 - 20 - 8;
+    let (src, dst, ttl): ([u8; 4], [u8; 4], u8) = (any(), any(), any());
+    let (id, seq): (u16, u16) = (any(), any());
+    let p = big_payload();
+    let n = p.len();
+    let mk = || PacketBuilder::ipv4(src, dst, ttl).icmpv4_echo_request(id, seq);
+    assert!(mk().size(n) == 28 + n);
+    let mut w = Cap::<32>::new();
+    let r = mk().write(&mut w, p);
+    witness!(n == MAX && r.is_ok(), "ok_at_the_maximum");
+    witness!(n == MAX + 1 && r.is_err(), "err_one_above");
+    match r {
+        Ok(()) => {
+            assert!(n <= MAX, "accepted although the IPv4 total length cannot hold it");
+            assert!(w.n == 28 + n);
+            assert!(usize::from(be16(&w.b, 2)) == 28 + n, "IPv4 total length exact");
+        }
+        Err(e) => {
+            assert!(n > MAX, "rejected although it fits");
+            assert!(too_big(&e, 8 + n, 65_535 - 20, ValueType::Ipv4PayloadLength));
+        }
+    }
+}
+
+crate::harnesses! {
+    #[kani::stub(etherparse::Ipv6RawExtHeader::to_bytes, crate::c10::m_raw_ext_to_bytes)]
+    #[kani::stub(etherparse::IpAuthHeader::to_bytes, crate::c10::m_auth_to_bytes)]
+    #[kani::stub(etherparse::checksum::u64_16bit_word::add_8bytes, crate::c10::m_add8)]
+    #[kani::stub(etherparse::checksum::u64_16bit_word::add_4bytes, crate::c10::m_add4)]
+    #[kani::stub(etherparse::checksum::u64_16bit_word::add_2bytes, crate::c10::m_add2)]
+    #[kani::stub(etherparse::checksum::u64_16bit_word::add_slice, crate::c10::m_add_slice)]
+    c10_eth_ipv6_udp_io = eth_ipv6_udp::<{ IO }>; unwind 4,
+    #[kani::stub(etherparse::Ipv6RawExtHeader::to_bytes, crate::c10::m_raw_ext_to_bytes)]
+    #[kani::stub(etherparse::IpAuthHeader::to_bytes, crate::c10::m_auth_to_bytes)]
+    #[kani::stub(etherparse::checksum::u64_16bit_word::add_8bytes, crate::c10::m_add8)]
+    #[kani::stub(etherparse::checksum::u64_16bit_word::add_4bytes, crate::c10::m_add4)]
+    #[kani::stub(etherparse::checksum::u64_16bit_word::add_2bytes, crate::c10::m_add2)]
+    #[kani::stub(etherparse::checksum::u64_16bit_word::add_slice, crate::c10::m_add_slice)]
+    c10_eth_ipv6_udp_slice = eth_ipv6_udp::<{ SLICE }>; unwind 4,
+    #[kani::stub(etherparse::Ipv6RawExtHeader::to_bytes, crate::c10::m_raw_ext_to_bytes)]
+    #[kani::stub(etherparse::IpAuthHeader::to_bytes, crate::c10::m_auth_to_bytes)]
+    #[kani::stub(etherparse::checksum::u64_16bit_word::add_8bytes, crate::c10::m_add8)]
+    #[kani::stub(etherparse::checksum::u64_16bit_word::add_4bytes, crate::c10::m_add4)]
+    #[kani::stub(etherparse::checksum::u64_16bit_word::add_2bytes, crate::c10::m_add2)]
+    #[kani::stub(etherparse::checksum::u64_16bit_word::add_slice, crate::c10::m_add_slice)]
+    c10_eth_ipv6_udp_vec = eth_ipv6_udp::<{ VEC }>; unwind 4,
+    #[kani::stub(etherparse::Ipv6RawExtHeader::to_bytes, crate::c10::m_raw_ext_to_bytes)]
+    #[kani::stub(etherparse::IpAuthHeader::to_bytes, crate::c10::m_auth_to_bytes)]
+    #[kani::stub(etherparse::checksum::u64_16bit_word::add_8bytes, crate::c10::m_add8)]
+    #[kani::stub(etherparse::checksum::u64_16bit_word::add_4bytes, crate::c10::m_add4)]
+    #[kani::stub(etherparse::checksum::u64_16bit_word::add_2bytes, crate::c10::m_add2)]
+    #[kani::stub(etherparse::checksum::u64_16bit_word::add_slice, crate::c10::m_add_slice)]
+    c10_ipv4_udp_io = ipv4_udp::<{ IO }>; unwind 6,
+    #[kani::stub(etherparse::Ipv6RawExtHeader::to_bytes, crate::c10::m_raw_ext_to_bytes)]
+    #[kani::stub(etherparse::IpAuthHeader::to_bytes, crate::c10::m_auth_to_bytes)]
+    #[kani::stub(etherparse::checksum::u64_16bit_word::add_8bytes, crate::c10::m_add8)]
+    #[kani::stub(etherparse::checksum::u64_16bit_word::add_4bytes, crate::c10::m_add4)]
+    #[kani::stub(etherparse::checksum::u64_16bit_word::add_2bytes, crate::c10::m_add2)]
+    #[kani::stub(etherparse::checksum::u64_16bit_word::add_slice, crate::c10::m_add_slice)]
+    c10_ipv4_udp_slice = ipv4_udp::<{ SLICE }>; unwind 6,
+    #[kani::stub(etherparse::Ipv6RawExtHeader::to_bytes, crate::c10::m_raw_ext_to_bytes)]
+    #[kani::stub(etherparse::IpAuthHeader::to_bytes, crate::c10::m_auth_to_bytes)]
+    #[kani::stub(etherparse::checksum::u64_16bit_word::add_8bytes, crate::c10::m_add8)]
+    #[kani::stub(etherparse::checksum::u64_16bit_word::add_4bytes, crate::c10::m_add4)]
+    #[kani::stub(etherparse::checksum::u64_16bit_word::add_2bytes, crate::c10::m_add2)]
+    #[kani::stub(etherparse::checksum::u64_16bit_word::add_slice, crate::c10::m_add_slice)]
+    c10_ipv4_udp_vec = ipv4_udp::<{ VEC }>; unwind 6,
+    #[kani::stub(etherparse::Ipv6RawExtHeader::to_bytes, crate::c10::m_raw_ext_to_bytes)]
+    #[kani::stub(etherparse::IpAuthHeader::to_bytes, crate::c10::m_auth_to_bytes)]
+    #[kani::stub(etherparse::checksum::u64_16bit_word::add_8bytes, crate::c10::m_add8)]
+    #[kani::stub(etherparse::checksum::u64_16bit_word::add_4bytes, crate::c10::m_add4)]
+    #[kani::stub(etherparse::checksum::u64_16bit_word::add_2bytes, crate::c10::m_add2)]
+    #[kani::stub(etherparse::checksum::u64_16bit_word::add_slice, crate::c10::m_add_slice)]
+    c10_vlan_ipv4_tcp_io = vlan_ipv4_tcp::<{ IO }>; unwind 42,
+    #[kani::stub(etherparse::Ipv6RawExtHeader::to_bytes, crate::c10::m_raw_ext_to_bytes)]
+    #[kani::stub(etherparse::IpAuthHeader::to_bytes, crate::c10::m_auth_to_bytes)]
+    #[kani::stub(etherparse::checksum::u64_16bit_word::add_8bytes, crate::c10::m_add8)]
+    #[kani::stub(etherparse::checksum::u64_16bit_word::add_4bytes, crate::c10::m_add4)]
+    #[kani::stub(etherparse::checksum::u64_16bit_word::add_2bytes, crate::c10::m_add2)]
+    #[kani::stub(etherparse::checksum::u64_16bit_word::add_slice, crate::c10::m_add_slice)]
+    c10_vlan_ipv4_tcp_slice = vlan_ipv4_tcp::<{ SLICE }>; unwind 42,
+    #[kani::stub(etherparse::Ipv6RawExtHeader::to_bytes, crate::c10::m_raw_ext_to_bytes)]
+    #[kani::stub(etherparse::IpAuthHeader::to_bytes, crate::c10::m_auth_to_bytes)]
+    #[kani::stub(etherparse::checksum::u64_16bit_word::add_8bytes, crate::c10::m_add8)]
+    #[kani::stub(etherparse::checksum::u64_16bit_word::add_4bytes, crate::c10::m_add4)]
+    #[kani::stub(etherparse::checksum::u64_16bit_word::add_2bytes, crate::c10::m_add2)]
+    #[kani::stub(etherparse::checksum::u64_16bit_word::add_slice, crate::c10::m_add_slice)]
+    c10_vlan_ipv4_tcp_vec = vlan_ipv4_tcp::<{ VEC }>; unwind 42,
+    #[kani::stub(etherparse::Ipv6RawExtHeader::to_bytes, crate::c10::m_raw_ext_to_bytes)]
+    #[kani::stub(etherparse::IpAuthHeader::to_bytes, crate::c10::m_auth_to_bytes)]
+    #[kani::stub(etherparse::checksum::u64_16bit_word::add_8bytes, crate::c10::m_add8)]
+    #[kani::stub(etherparse::checksum::u64_16bit_word::add_4bytes, crate::c10::m_add4)]
+    #[kani::stub(etherparse::checksum::u64_16bit_word::add_2bytes, crate::c10::m_add2)]
+    #[kani::stub(etherparse::checksum::u64_16bit_word::add_slice, crate::c10::m_add_slice)]
+    c10_ipv4_tcp_b_io = ipv4_tcp_b::<{ IO }>; unwind 42,
+    #[kani::stub(etherparse::Ipv6RawExtHeader::to_bytes, crate::c10::m_raw_ext_to_bytes)]
+    #[kani::stub(etherparse::IpAuthHeader::to_bytes, crate::c10::m_auth_to_bytes)]
+    #[kani::stub(etherparse::checksum::u64_16bit_word::add_8bytes, crate::c10::m_add8)]
+    #[kani::stub(etherparse::checksum::u64_16bit_word::add_4bytes, crate::c10::m_add4)]
+    #[kani::stub(etherparse::checksum::u64_16bit_word::add_2bytes, crate::c10::m_add2)]
+    #[kani::stub(etherparse::checksum::u64_16bit_word::add_slice, crate::c10::m_add_slice)]
+    c10_ipv4_tcp_b_slice = ipv4_tcp_b::<{ SLICE }>; unwind 42,
+    #[kani::stub(etherparse::Ipv6RawExtHeader::to_bytes, crate::c10::m_raw_ext_to_bytes)]
+    #[kani::stub(etherparse::IpAuthHeader::to_bytes, crate::c10::m_auth_to_bytes)]
+    #[kani::stub(etherparse::checksum::u64_16bit_word::add_8bytes, crate::c10::m_add8)]
+    #[kani::stub(etherparse::checksum::u64_16bit_word::add_4bytes, crate::c10::m_add4)]
+    #[kani::stub(etherparse::checksum::u64_16bit_word::add_2bytes, crate::c10::m_add2)]
+    #[kani::stub(etherparse::checksum::u64_16bit_word::add_slice, crate::c10::m_add_slice)]
+    c10_ipv4_tcp_b_vec = ipv4_tcp_b::<{ VEC }>; unwind 42,
+    #[kani::stub(etherparse::Ipv6RawExtHeader::to_bytes, crate::c10::m_raw_ext_to_bytes)]
+    #[kani::stub(etherparse::IpAuthHeader::to_bytes, crate::c10::m_auth_to_bytes)]
+    #[kani::stub(etherparse::checksum::u64_16bit_word::add_8bytes, crate::c10::m_add8)]
+    #[kani::stub(etherparse::checksum::u64_16bit_word::add_4bytes, crate::c10::m_add4)]
+    #[kani::stub(etherparse::checksum::u64_16bit_word::add_2bytes, crate::c10::m_add2)]
+    #[kani::stub(etherparse::checksum::u64_16bit_word::add_slice, crate::c10::m_add_slice)]
+    c10_ipv6_tcp_header_io = ipv6_tcp_header::<{ IO }>; unwind 42,
+    #[kani::stub(etherparse::Ipv6RawExtHeader::to_bytes, crate::c10::m_raw_ext_to_bytes)]
+    #[kani::stub(etherparse::IpAuthHeader::to_bytes, crate::c10::m_auth_to_bytes)]
+    #[kani::stub(etherparse::checksum::u64_16bit_word::add_8bytes, crate::c10::m_add8)]
+    #[kani::stub(etherparse::checksum::u64_16bit_word::add_4bytes, crate::c10::m_add4)]
+    #[kani::stub(etherparse::checksum::u64_16bit_word::add_2bytes, crate::c10::m_add2)]
+    #[kani::stub(etherparse::checksum::u64_16bit_word::add_slice, crate::c10::m_add_slice)]
+    c10_ipv6_tcp_header_slice = ipv6_tcp_header::<{ SLICE }>; unwind 42,
+    #[kani::stub(etherparse::Ipv6RawExtHeader::to_bytes, crate::c10::m_raw_ext_to_bytes)]
+    #[kani::stub(etherparse::IpAuthHeader::to_bytes, crate::c10::m_auth_to_bytes)]
+    #[kani::stub(etherparse::checksum::u64_16bit_word::add_8bytes, crate::c10::m_add8)]
+    #[kani::stub(etherparse::checksum::u64_16bit_word::add_4bytes, crate::c10::m_add4)]
+    #[kani::stub(etherparse::checksum::u64_16bit_word::add_2bytes, crate::c10::m_add2)]
+    #[kani::stub(etherparse::checksum::u64_16bit_word::add_slice, crate::c10::m_add_slice)]
+    c10_ipv6_tcp_header_vec = ipv6_tcp_header::<{ VEC }>; unwind 42,
+    #[kani::stub(etherparse::Ipv6RawExtHeader::to_bytes, crate::c10::m_raw_ext_to_bytes)]
+    #[kani::stub(etherparse::IpAuthHeader::to_bytes, crate::c10::m_auth_to_bytes)]
+    #[kani::stub(etherparse::checksum::u64_16bit_word::add_8bytes, crate::c10::m_add8)]
+    #[kani::stub(etherparse::checksum::u64_16bit_word::add_4bytes, crate::c10::m_add4)]
+    #[kani::stub(etherparse::checksum::u64_16bit_word::add_2bytes, crate::c10::m_add2)]
+    #[kani::stub(etherparse::checksum::u64_16bit_word::add_slice, crate::c10::m_add_slice)]
+    c10_qinq_ipv4_icmpv4_io = qinq_ipv4_icmpv4::<{ IO }>; unwind 6,
+    #[kani::stub(etherparse::Ipv6RawExtHeader::to_bytes, crate::c10::m_raw_ext_to_bytes)]
+    #[kani::stub(etherparse::IpAuthHeader::to_bytes, crate::c10::m_auth_to_bytes)]
+    #[kani::stub(etherparse::checksum::u64_16bit_word::add_8bytes, crate::c10::m_add8)]
+    #[kani::stub(etherparse::checksum::u64_16bit_word::add_4bytes, crate::c10::m_add4)]
+    #[kani::stub(etherparse::checksum::u64_16bit_word::add_2bytes, crate::c10::m_add2)]
+    #[kani::stub(etherparse::checksum::u64_16bit_word::add_slice, crate::c10::m_add_slice)]
+    c10_qinq_ipv4_icmpv4_slice = qinq_ipv4_icmpv4::<{ SLICE }>; unwind 6,
+    #[kani::stub(etherparse::Ipv6RawExtHeader::to_bytes, crate::c10::m_raw_ext_to_bytes)]
+    #[kani::stub(etherparse::IpAuthHeader::to_bytes, crate::c10::m_auth_to_bytes)]
+    #[kani::stub(etherparse::checksum::u64_16bit_word::add_8bytes, crate::c10::m_add8)]
+    #[kani::stub(etherparse::checksum::u64_16bit_word::add_4bytes, crate::c10::m_add4)]
+    #[kani::stub(etherparse::checksum::u64_16bit_word::add_2bytes, crate::c10::m_add2)]
+    #[kani::stub(etherparse::checksum::u64_16bit_word::add_slice, crate::c10::m_add_slice)]
+    c10_qinq_ipv4_icmpv4_vec = qinq_ipv4_icmpv4::<{ VEC }>; unwind 6,
+    #[kani::stub(etherparse::Ipv6RawExtHeader::to_bytes, crate::c10::m_raw_ext_to_bytes)]
+    #[kani::stub(etherparse::IpAuthHeader::to_bytes, crate::c10::m_auth_to_bytes)]
+    #[kani::stub(etherparse::checksum::u64_16bit_word::add_8bytes, crate::c10::m_add8)]
+    #[kani::stub(etherparse::checksum::u64_16bit_word::add_4bytes, crate::c10::m_add4)]
+    #[kani::stub(etherparse::checksum::u64_16bit_word::add_2bytes, crate::c10::m_add2)]
+    #[kani::stub(etherparse::checksum::u64_16bit_word::add_slice, crate::c10::m_add_slice)]
+    c10_sll_ipv6_icmpv6_io = sll_ipv6_icmpv6::<{ IO }>; unwind 4,
+    #[kani::stub(etherparse::Ipv6RawExtHeader::to_bytes, crate::c10::m_raw_ext_to_bytes)]
+    #[kani::stub(etherparse::IpAuthHeader::to_bytes, crate::c10::m_auth_to_bytes)]
+    #[kani::stub(etherparse::checksum::u64_16bit_word::add_8bytes, crate::c10::m_add8)]
+    #[kani::stub(etherparse::checksum::u64_16bit_word::add_4bytes, crate::c10::m_add4)]
+    #[kani::stub(etherparse::checksum::u64_16bit_word::add_2bytes, crate::c10::m_add2)]
+    #[kani::stub(etherparse::checksum::u64_16bit_word::add_slice, crate::c10::m_add_slice)]
+    c10_sll_ipv6_icmpv6_slice = sll_ipv6_icmpv6::<{ SLICE }>; unwind 4,
+    #[kani::stub(etherparse::Ipv6RawExtHeader::to_bytes, crate::c10::m_raw_ext_to_bytes)]
+    #[kani::stub(etherparse::IpAuthHeader::to_bytes, crate::c10::m_auth_to_bytes)]
+    #[kani::stub(etherparse::checksum::u64_16bit_word::add_8bytes, crate::c10::m_add8)]
+    #[kani::stub(etherparse::checksum::u64_16bit_word::add_4bytes, crate::c10::m_add4)]
+    #[kani::stub(etherparse::checksum::u64_16bit_word::add_2bytes, crate::c10::m_add2)]
+    #[kani::stub(etherparse::checksum::u64_16bit_word::add_slice, crate::c10::m_add_slice)]
+    c10_sll_ipv6_icmpv6_vec = sll_ipv6_icmpv6::<{ VEC }>; unwind 4,
+    #[kani::stub(etherparse::Ipv6RawExtHeader::to_bytes, crate::c10::m_raw_ext_to_bytes)]
+    #[kani::stub(etherparse::IpAuthHeader::to_bytes, crate::c10::m_auth_to_bytes)]
+    #[kani::stub(etherparse::checksum::u64_16bit_word::add_8bytes, crate::c10::m_add8)]
+    #[kani::stub(etherparse::checksum::u64_16bit_word::add_4bytes, crate::c10::m_add4)]
+    #[kani::stub(etherparse::checksum::u64_16bit_word::add_2bytes, crate::c10::m_add2)]
+    #[kani::stub(etherparse::checksum::u64_16bit_word::add_slice, crate::c10::m_add_slice)]
+    c10_ipv6_icmpv4_raw_io = ipv6_icmpv4_raw::<{ IO }>; unwind 4,
+    #[kani::stub(etherparse::Ipv6RawExtHeader::to_bytes, crate::c10::m_raw_ext_to_bytes)]
+    #[kani::stub(etherparse::IpAuthHeader::to_bytes, crate::c10::m_auth_to_bytes)]
+    #[kani::stub(etherparse::checksum::u64_16bit_word::add_8bytes, crate::c10::m_add8)]
+    #[kani::stub(etherparse::checksum::u64_16bit_word::add_4bytes, crate::c10::m_add4)]
+    #[kani::stub(etherparse::checksum::u64_16bit_word::add_2bytes, crate::c10::m_add2)]
+    #[kani::stub(etherparse::checksum::u64_16bit_word::add_slice, crate::c10::m_add_slice)]
+    c10_ipv6_icmpv4_raw_slice = ipv6_icmpv4_raw::<{ SLICE }>; unwind 4,
+    #[kani::stub(etherparse::Ipv6RawExtHeader::to_bytes, crate::c10::m_raw_ext_to_bytes)]
+    #[kani::stub(etherparse::IpAuthHeader::to_bytes, crate::c10::m_auth_to_bytes)]
+    #[kani::stub(etherparse::checksum::u64_16bit_word::add_8bytes, crate::c10::m_add8)]
+    #[kani::stub(etherparse::checksum::u64_16bit_word::add_4bytes, crate::c10::m_add4)]
+    #[kani::stub(etherparse::checksum::u64_16bit_word::add_2bytes, crate::c10::m_add2)]
+    #[kani::stub(etherparse::checksum::u64_16bit_word::add_slice, crate::c10::m_add_slice)]
+    c10_ipv6_icmpv4_raw_vec = ipv6_icmpv4_raw::<{ VEC }>; unwind 4,
+    #[kani::stub(etherparse::Ipv6RawExtHeader::to_bytes, crate::c10::m_raw_ext_to_bytes)]
+    #[kani::stub(etherparse::IpAuthHeader::to_bytes, crate::c10::m_auth_to_bytes)]
+    #[kani::stub(etherparse::checksum::u64_16bit_word::add_8bytes, crate::c10::m_add8)]
+    #[kani::stub(etherparse::checksum::u64_16bit_word::add_4bytes, crate::c10::m_add4)]
+    #[kani::stub(etherparse::checksum::u64_16bit_word::add_2bytes, crate::c10::m_add2)]
+    #[kani::stub(etherparse::checksum::u64_16bit_word::add_slice, crate::c10::m_add_slice)]
+    c10_ipv6_icmpv6_raw_io = ipv6_icmpv6_raw::<{ IO }>; unwind 4,
+    #[kani::stub(etherparse::Ipv6RawExtHeader::to_bytes, crate::c10::m_raw_ext_to_bytes)]
+    #[kani::stub(etherparse::IpAuthHeader::to_bytes, crate::c10::m_auth_to_bytes)]
+    #[kani::stub(etherparse::checksum::u64_16bit_word::add_8bytes, crate::c10::m_add8)]
+    #[kani::stub(etherparse::checksum::u64_16bit_word::add_4bytes, crate::c10::m_add4)]
+    #[kani::stub(etherparse::checksum::u64_16bit_word::add_2bytes, crate::c10::m_add2)]
+    #[kani::stub(etherparse::checksum::u64_16bit_word::add_slice, crate::c10::m_add_slice)]
+    c10_ipv6_icmpv6_raw_slice = ipv6_icmpv6_raw::<{ SLICE }>; unwind 4,
+    #[kani::stub(etherparse::Ipv6RawExtHeader::to_bytes, crate::c10::m_raw_ext_to_bytes)]
+    #[kani::stub(etherparse::IpAuthHeader::to_bytes, crate::c10::m_auth_to_bytes)]
+    #[kani::stub(etherparse::checksum::u64_16bit_word::add_8bytes, crate::c10::m_add8)]
+    #[kani::stub(etherparse::checksum::u64_16bit_word::add_4bytes, crate::c10::m_add4)]
+    #[kani::stub(etherparse::checksum::u64_16bit_word::add_2bytes, crate::c10::m_add2)]
+    #[kani::stub(etherparse::checksum::u64_16bit_word::add_slice, crate::c10::m_add_slice)]
+    c10_ipv6_icmpv6_raw_vec = ipv6_icmpv6_raw::<{ VEC }>; unwind 4,
+    #[kani::stub(etherparse::Ipv6RawExtHeader::to_bytes, crate::c10::m_raw_ext_to_bytes)]
+    #[kani::stub(etherparse::IpAuthHeader::to_bytes, crate::c10::m_auth_to_bytes)]
+    #[kani::stub(etherparse::checksum::u64_16bit_word::add_8bytes, crate::c10::m_add8)]
+    #[kani::stub(etherparse::checksum::u64_16bit_word::add_4bytes, crate::c10::m_add4)]
+    #[kani::stub(etherparse::checksum::u64_16bit_word::add_2bytes, crate::c10::m_add2)]
+    #[kani::stub(etherparse::checksum::u64_16bit_word::add_slice, crate::c10::m_add_slice)]
+    c10_ip_v4_raw_io = ip_v4_raw::<{ IO }>; unwind 6,
+    #[kani::stub(etherparse::Ipv6RawExtHeader::to_bytes, crate::c10::m_raw_ext_to_bytes)]
+    #[kani::stub(etherparse::IpAuthHeader::to_bytes, crate::c10::m_auth_to_bytes)]
+    #[kani::stub(etherparse::checksum::u64_16bit_word::add_8bytes, crate::c10::m_add8)]
+    #[kani::stub(etherparse::checksum::u64_16bit_word::add_4bytes, crate::c10::m_add4)]
+    #[kani::stub(etherparse::checksum::u64_16bit_word::add_2bytes, crate::c10::m_add2)]
+    #[kani::stub(etherparse::checksum::u64_16bit_word::add_slice, crate::c10::m_add_slice)]
+    c10_ip_v4_raw_slice = ip_v4_raw::<{ SLICE }>; unwind 6,
+    #[kani::stub(etherparse::Ipv6RawExtHeader::to_bytes, crate::c10::m_raw_ext_to_bytes)]
+    #[kani::stub(etherparse::IpAuthHeader::to_bytes, crate::c10::m_auth_to_bytes)]
+    #[kani::stub(etherparse::checksum::u64_16bit_word::add_8bytes, crate::c10::m_add8)]
+    #[kani::stub(etherparse::checksum::u64_16bit_word::add_4bytes, crate::c10::m_add4)]
+    #[kani::stub(etherparse::checksum::u64_16bit_word::add_2bytes, crate::c10::m_add2)]
+    #[kani::stub(etherparse::checksum::u64_16bit_word::add_slice, crate::c10::m_add_slice)]
+    c10_ip_v4_raw_vec = ip_v4_raw::<{ VEC }>; unwind 6,
+    #[kani::stub(etherparse::Ipv6RawExtHeader::to_bytes, crate::c10::m_raw_ext_to_bytes)]
+    #[kani::stub(etherparse::IpAuthHeader::to_bytes, crate::c10::m_auth_to_bytes)]
+    #[kani::stub(etherparse::checksum::u64_16bit_word::add_8bytes, crate::c10::m_add8)]
+    #[kani::stub(etherparse::checksum::u64_16bit_word::add_4bytes, crate::c10::m_add4)]
+    #[kani::stub(etherparse::checksum::u64_16bit_word::add_2bytes, crate::c10::m_add2)]
+    #[kani::stub(etherparse::checksum::u64_16bit_word::add_slice, crate::c10::m_add_slice)]
+    c10_ip_v6_frag_udp_io = ip_v6_frag_udp::<{ IO }>; unwind 4,
+    #[kani::stub(etherparse::Ipv6RawExtHeader::to_bytes, crate::c10::m_raw_ext_to_bytes)]
+    #[kani::stub(etherparse::IpAuthHeader::to_bytes, crate::c10::m_auth_to_bytes)]
+    #[kani::stub(etherparse::checksum::u64_16bit_word::add_8bytes, crate::c10::m_add8)]
+    #[kani::stub(etherparse::checksum::u64_16bit_word::add_4bytes, crate::c10::m_add4)]
+    #[kani::stub(etherparse::checksum::u64_16bit_word::add_2bytes, crate::c10::m_add2)]
+    #[kani::stub(etherparse::checksum::u64_16bit_word::add_slice, crate::c10::m_add_slice)]
+    c10_ip_v6_frag_udp_slice = ip_v6_frag_udp::<{ SLICE }>; unwind 4,
+    #[kani::stub(etherparse::Ipv6RawExtHeader::to_bytes, crate::c10::m_raw_ext_to_bytes)]
+    #[kani::stub(etherparse::IpAuthHeader::to_bytes, crate::c10::m_auth_to_bytes)]
+    #[kani::stub(etherparse::checksum::u64_16bit_word::add_8bytes, crate::c10::m_add8)]
+    #[kani::stub(etherparse::checksum::u64_16bit_word::add_4bytes, crate::c10::m_add4)]
+    #[kani::stub(etherparse::checksum::u64_16bit_word::add_2bytes, crate::c10::m_add2)]
+    #[kani::stub(etherparse::checksum::u64_16bit_word::add_slice, crate::c10::m_add_slice)]
+    c10_ip_v6_frag_udp_vec = ip_v6_frag_udp::<{ VEC }>; unwind 4,
+    #[kani::stub(etherparse::Ipv6RawExtHeader::to_bytes, crate::c10::m_raw_ext_to_bytes)]
+    #[kani::stub(etherparse::IpAuthHeader::to_bytes, crate::c10::m_auth_to_bytes)]
+    #[kani::stub(etherparse::checksum::u64_16bit_word::add_8bytes, crate::c10::m_add8)]
+    #[kani::stub(etherparse::checksum::u64_16bit_word::add_4bytes, crate::c10::m_add4)]
+    #[kani::stub(etherparse::checksum::u64_16bit_word::add_2bytes, crate::c10::m_add2)]
+    #[kani::stub(etherparse::checksum::u64_16bit_word::add_slice, crate::c10::m_add_slice)]
+    c10_err_icmpv6_in_ipv4_io = err_icmpv6_in_ipv4::<{ IO }>; unwind 6,
+    #[kani::stub(etherparse::Ipv6RawExtHeader::to_bytes, crate::c10::m_raw_ext_to_bytes)]
+    #[kani::stub(etherparse::IpAuthHeader::to_bytes, crate::c10::m_auth_to_bytes)]
+    #[kani::stub(etherparse::checksum::u64_16bit_word::add_8bytes, crate::c10::m_add8)]
+    #[kani::stub(etherparse::checksum::u64_16bit_word::add_4bytes, crate::c10::m_add4)]
+    #[kani::stub(etherparse::checksum::u64_16bit_word::add_2bytes, crate::c10::m_add2)]
+    #[kani::stub(etherparse::checksum::u64_16bit_word::add_slice, crate::c10::m_add_slice)]
+    c10_err_icmpv6_in_ipv4_slice = err_icmpv6_in_ipv4::<{ SLICE }>; unwind 6,
+    #[kani::stub(etherparse::Ipv6RawExtHeader::to_bytes, crate::c10::m_raw_ext_to_bytes)]
+    #[kani::stub(etherparse::IpAuthHeader::to_bytes, crate::c10::m_auth_to_bytes)]
+    #[kani::stub(etherparse::checksum::u64_16bit_word::add_8bytes, crate::c10::m_add8)]
+    #[kani::stub(etherparse::checksum::u64_16bit_word::add_4bytes, crate::c10::m_add4)]
+    #[kani::stub(etherparse::checksum::u64_16bit_word::add_2bytes, crate::c10::m_add2)]
+    #[kani::stub(etherparse::checksum::u64_16bit_word::add_slice, crate::c10::m_add_slice)]
+    c10_err_icmpv6_in_ipv4_vec = err_icmpv6_in_ipv4::<{ VEC }>; unwind 6,
+    #[kani::stub(etherparse::Ipv6RawExtHeader::to_bytes, crate::c10::m_raw_ext_to_bytes)]
+    #[kani::stub(etherparse::IpAuthHeader::to_bytes, crate::c10::m_auth_to_bytes)]
+    #[kani::stub(etherparse::checksum::u64_16bit_word::add_8bytes, crate::c10::m_add8)]
+    #[kani::stub(etherparse::checksum::u64_16bit_word::add_4bytes, crate::c10::m_add4)]
+    #[kani::stub(etherparse::checksum::u64_16bit_word::add_2bytes, crate::c10::m_add2)]
+    #[kani::stub(etherparse::checksum::u64_16bit_word::add_slice, crate::c10::m_add_slice)]
+    c10_arp_eth_io = arp::<{ IO }, 0>; unwind 10,
+    #[kani::stub(etherparse::Ipv6RawExtHeader::to_bytes, crate::c10::m_raw_ext_to_bytes)]
+    #[kani::stub(etherparse::IpAuthHeader::to_bytes, crate::c10::m_auth_to_bytes)]
+    #[kani::stub(etherparse::checksum::u64_16bit_word::add_8bytes, crate::c10::m_add8)]
+    #[kani::stub(etherparse::checksum::u64_16bit_word::add_4bytes, crate::c10::m_add4)]
+    #[kani::stub(etherparse::checksum::u64_16bit_word::add_2bytes, crate::c10::m_add2)]
+    #[kani::stub(etherparse::checksum::u64_16bit_word::add_slice, crate::c10::m_add_slice)]
+    c10_arp_eth_slice = arp::<{ SLICE }, 0>; unwind 10,
+    #[kani::stub(etherparse::Ipv6RawExtHeader::to_bytes, crate::c10::m_raw_ext_to_bytes)]
+    #[kani::stub(etherparse::IpAuthHeader::to_bytes, crate::c10::m_auth_to_bytes)]
+    #[kani::stub(etherparse::checksum::u64_16bit_word::add_8bytes, crate::c10::m_add8)]
+    #[kani::stub(etherparse::checksum::u64_16bit_word::add_4bytes, crate::c10::m_add4)]
+    #[kani::stub(etherparse::checksum::u64_16bit_word::add_2bytes, crate::c10::m_add2)]
+    #[kani::stub(etherparse::checksum::u64_16bit_word::add_slice, crate::c10::m_add_slice)]
+    c10_arp_eth_vec = arp::<{ VEC }, 0>; unwind 10,
+    #[kani::stub(etherparse::Ipv6RawExtHeader::to_bytes, crate::c10::m_raw_ext_to_bytes)]
+    #[kani::stub(etherparse::IpAuthHeader::to_bytes, crate::c10::m_auth_to_bytes)]
+    #[kani::stub(etherparse::checksum::u64_16bit_word::add_8bytes, crate::c10::m_add8)]
+    #[kani::stub(etherparse::checksum::u64_16bit_word::add_4bytes, crate::c10::m_add4)]
+    #[kani::stub(etherparse::checksum::u64_16bit_word::add_2bytes, crate::c10::m_add2)]
+    #[kani::stub(etherparse::checksum::u64_16bit_word::add_slice, crate::c10::m_add_slice)]
+    c10_arp_vlan_io = arp::<{ IO }, 1>; unwind 10,
+    #[kani::stub(etherparse::Ipv6RawExtHeader::to_bytes, crate::c10::m_raw_ext_to_bytes)]
+    #[kani::stub(etherparse::IpAuthHeader::to_bytes, crate::c10::m_auth_to_bytes)]
+    #[kani::stub(etherparse::checksum::u64_16bit_word::add_8bytes, crate::c10::m_add8)]
+    #[kani::stub(etherparse::checksum::u64_16bit_word::add_4bytes, crate::c10::m_add4)]
+    #[kani::stub(etherparse::checksum::u64_16bit_word::add_2bytes, crate::c10::m_add2)]
+    #[kani::stub(etherparse::checksum::u64_16bit_word::add_slice, crate::c10::m_add_slice)]
+    c10_arp_vlan_slice = arp::<{ SLICE }, 1>; unwind 10,
+    #[kani::stub(etherparse::Ipv6RawExtHeader::to_bytes, crate::c10::m_raw_ext_to_bytes)]
+    #[kani::stub(etherparse::IpAuthHeader::to_bytes, crate::c10::m_auth_to_bytes)]
+    #[kani::stub(etherparse::checksum::u64_16bit_word::add_8bytes, crate::c10::m_add8)]
+    #[kani::stub(etherparse::checksum::u64_16bit_word::add_4bytes, crate::c10::m_add4)]
+    #[kani::stub(etherparse::checksum::u64_16bit_word::add_2bytes, crate::c10::m_add2)]
+    #[kani::stub(etherparse::checksum::u64_16bit_word::add_slice, crate::c10::m_add_slice)]
+    c10_arp_vlan_vec = arp::<{ VEC }, 1>; unwind 10,
+    #[kani::stub(etherparse::Ipv6RawExtHeader::to_bytes, crate::c10::m_raw_ext_to_bytes)]
+    #[kani::stub(etherparse::IpAuthHeader::to_bytes, crate::c10::m_auth_to_bytes)]
+    #[kani::stub(etherparse::checksum::u64_16bit_word::add_8bytes, crate::c10::m_add8)]
+    #[kani::stub(etherparse::checksum::u64_16bit_word::add_4bytes, crate::c10::m_add4)]
+    #[kani::stub(etherparse::checksum::u64_16bit_word::add_2bytes, crate::c10::m_add2)]
+    #[kani::stub(etherparse::checksum::u64_16bit_word::add_slice, crate::c10::m_add_slice)]
+    c10_arp_sll_io = arp::<{ IO }, 2>; unwind 10,
+    #[kani::stub(etherparse::Ipv6RawExtHeader::to_bytes, crate::c10::m_raw_ext_to_bytes)]
+    #[kani::stub(etherparse::IpAuthHeader::to_bytes, crate::c10::m_auth_to_bytes)]
+    #[kani::stub(etherparse::checksum::u64_16bit_word::add_8bytes, crate::c10::m_add8)]
+    #[kani::stub(etherparse::checksum::u64_16bit_word::add_4bytes, crate::c10::m_add4)]
+    #[kani::stub(etherparse::checksum::u64_16bit_word::add_2bytes, crate::c10::m_add2)]
+    #[kani::stub(etherparse::checksum::u64_16bit_word::add_slice, crate::c10::m_add_slice)]
+    c10_arp_sll_slice = arp::<{ SLICE }, 2>; unwind 10,
+    #[kani::stub(etherparse::Ipv6RawExtHeader::to_bytes, crate::c10::m_raw_ext_to_bytes)]
+    #[kani::stub(etherparse::IpAuthHeader::to_bytes, crate::c10::m_auth_to_bytes)]
+    #[kani::stub(etherparse::checksum::u64_16bit_word::add_8bytes, crate::c10::m_add8)]
+    #[kani::stub(etherparse::checksum::u64_16bit_word::add_4bytes, crate::c10::m_add4)]
+    #[kani::stub(etherparse::checksum::u64_16bit_word::add_2bytes, crate::c10::m_add2)]
+    #[kani::stub(etherparse::checksum::u64_16bit_word::add_slice, crate::c10::m_add_slice)]
+    c10_arp_sll_vec = arp::<{ VEC }, 2>; unwind 10,
+    #[kani::stub(etherparse::Ipv6RawExtHeader::to_bytes, crate::c10::m_raw_ext_to_bytes)]
+    #[kani::stub(etherparse::IpAuthHeader::to_bytes, crate::c10::m_auth_to_bytes)]
+    #[kani::stub(etherparse::checksum::u64_16bit_word::add_8bytes, crate::c10::m_add8)]
+    #[kani::stub(etherparse::checksum::u64_16bit_word::add_4bytes, crate::c10::m_add4)]
+    #[kani::stub(etherparse::checksum::u64_16bit_word::add_2bytes, crate::c10::m_add2)]
+    #[kani::stub(etherparse::checksum::u64_16bit_word::add_slice, crate::c10::m_add_slice)]
+    c10_ip_v6_raw_io = ip_v6_raw::<{ IO }>; unwind 4,
+    #[kani::stub(etherparse::Ipv6RawExtHeader::to_bytes, crate::c10::m_raw_ext_to_bytes)]
+    #[kani::stub(etherparse::IpAuthHeader::to_bytes, crate::c10::m_auth_to_bytes)]
+    #[kani::stub(etherparse::checksum::u64_16bit_word::add_8bytes, crate::c10::m_add8)]
+    #[kani::stub(etherparse::checksum::u64_16bit_word::add_4bytes, crate::c10::m_add4)]
+    #[kani::stub(etherparse::checksum::u64_16bit_word::add_2bytes, crate::c10::m_add2)]
+    #[kani::stub(etherparse::checksum::u64_16bit_word::add_slice, crate::c10::m_add_slice)]
+    c10_ip_v6_raw_slice = ip_v6_raw::<{ SLICE }>; unwind 4,
+    #[kani::stub(etherparse::Ipv6RawExtHeader::to_bytes, crate::c10::m_raw_ext_to_bytes)]
+    #[kani::stub(etherparse::IpAuthHeader::to_bytes, crate::c10::m_auth_to_bytes)]
+    #[kani::stub(etherparse::checksum::u64_16bit_word::add_8bytes, crate::c10::m_add8)]
+    #[kani::stub(etherparse::checksum::u64_16bit_word::add_4bytes, crate::c10::m_add4)]
+    #[kani::stub(etherparse::checksum::u64_16bit_word::add_2bytes, crate::c10::m_add2)]
+    #[kani::stub(etherparse::checksum::u64_16bit_word::add_slice, crate::c10::m_add_slice)]
+    c10_ip_v6_raw_vec = ip_v6_raw::<{ VEC }>; unwind 4,
+    #[kani::stub(etherparse::Ipv6RawExtHeader::to_bytes, crate::c10::m_raw_ext_to_bytes)]
+    #[kani::stub(etherparse::IpAuthHeader::to_bytes, crate::c10::m_auth_to_bytes)]
+    #[kani::stub(etherparse::checksum::u64_16bit_word::add_8bytes, crate::c10::m_add8)]
+    #[kani::stub(etherparse::checksum::u64_16bit_word::add_4bytes, crate::c10::m_add4)]
+    #[kani::stub(etherparse::checksum::u64_16bit_word::add_2bytes, crate::c10::m_add2)]
+    #[kani::stub(etherparse::checksum::u64_16bit_word::add_slice, crate::c10::m_add_slice)]
+    c10_err_slice_space = err_slice_space; unwind 6,
+    #[kani::stub(etherparse::Ipv6RawExtHeader::to_bytes, crate::c10::m_raw_ext_to_bytes)]
+    #[kani::stub(etherparse::IpAuthHeader::to_bytes, crate::c10::m_auth_to_bytes)]
+    #[kani::stub(etherparse::checksum::u64_16bit_word::add_8bytes, crate::c10::m_add8)]
+    #[kani::stub(etherparse::checksum::u64_16bit_word::add_4bytes, crate::c10::m_add4)]
+    #[kani::stub(etherparse::checksum::u64_16bit_word::add_2bytes, crate::c10::m_add2)]
+    #[kani::stub(etherparse::checksum::u64_16bit_word::add_slice, crate::c10::havoc_add_slice)]
+    c10_limit_ipv4_udp = limit_ipv4_udp; unwind 6,
+    #[kani::stub(etherparse::Ipv6RawExtHeader::to_bytes, crate::c10::m_raw_ext_to_bytes)]
+    #[kani::stub(etherparse::IpAuthHeader::to_bytes, crate::c10::m_auth_to_bytes)]
+    #[kani::stub(etherparse::checksum::u64_16bit_word::add_8bytes, crate::c10::m_add8)]
+    #[kani::stub(etherparse::checksum::u64_16bit_word::add_4bytes, crate::c10::m_add4)]
+    #[kani::stub(etherparse::checksum::u64_16bit_word::add_2bytes, crate::c10::m_add2)]
+    #[kani::stub(etherparse::checksum::u64_16bit_word::add_slice, crate::c10::havoc_add_slice)]
+    c10_limit_ipv6_udp = limit_ipv6_udp; unwind 4,
+    #[kani::stub(etherparse::Ipv6RawExtHeader::to_bytes, crate::c10::m_raw_ext_to_bytes)]
+    #[kani::stub(etherparse::IpAuthHeader::to_bytes, crate::c10::m_auth_to_bytes)]
+    #[kani::stub(etherparse::checksum::u64_16bit_word::add_8bytes, crate::c10::m_add8)]
+    #[kani::stub(etherparse::checksum::u64_16bit_word::add_4bytes, crate::c10::m_add4)]
+    #[kani::stub(etherparse::checksum::u64_16bit_word::add_2bytes, crate::c10::m_add2)]
+    #[kani::stub(etherparse::checksum::u64_16bit_word::add_slice, crate::c10::havoc_add_slice)]
+    c10_limit_ipv6_tcp = limit_ipv6_tcp; unwind 42,
+    #[kani::stub(etherparse::Ipv6RawExtHeader::to_bytes, crate::c10::m_raw_ext_to_bytes)]
+    #[kani::stub(etherparse::IpAuthHeader::to_bytes, crate::c10::m_auth_to_bytes)]
+    #[kani::stub(etherparse::checksum::u64_16bit_word::add_8bytes, crate::c10::m_add8)]
+    #[kani::stub(etherparse::checksum::u64_16bit_word::add_4bytes, crate::c10::m_add4)]
+    #[kani::stub(etherparse::checksum::u64_16bit_word::add_2bytes, crate::c10::m_add2)]
+    #[kani::stub(etherparse::checksum::u64_16bit_word::add_slice, crate::c10::havoc_add_slice)]
+    c10_limit_ipv4_icmpv4 = limit_ipv4_icmpv4; unwind 6,
+}
